@@ -237,7 +237,7 @@ Proof.
   destruct (tw_pt_pc p) eqn:Epc.
   - (* PStart *)
     destruct (Nat.eqb i 0 || tw_opened s); [|discriminate].
-    destruct (tw_begin i _ (tw_pt_calls p) 0) as [s2 p2] eqn:EB. injection HS as <-.
+    destruct (tw_begin i _ (tw_pt_calls p) (tw_pt_idx p)) as [s2 p2] eqn:EB. injection HS as <-.
     pose proof (tw_begin_frame _ _ _ _ _ _ EB) as (F & _ & B). apply tw_bpc_dpc, tw_dpc_noholds in B. destruct B as (B1 & B2 & B3).
     tw_use_frame F.
     apply tw_lock_pgen with (s := s) (p := p); auto; try (destruct (Nat.eqb i 0); tw_proj; congruence);
@@ -471,14 +471,18 @@ Lemma tw_cstep_lockM : forall s s3 s1,
   tw_q s1 = tw_q s ->
   exists (qa : mrb) (ra : option (N * N)) (qb : mrb) (rb : option (N * N)) (tr : list tw_ev),
     (match tw_held s return Prop with None => qa = tw_q s | Some _ => pop (tw_q s) = Ok (qa, ra) end) /\
-    peek qa = Ok (qb, rb) /\ s3 = tw_set_held (tw_set_trace (tw_set_q s1 qb) tr) rb.
+    peek qa = Ok (qb, rb) /\ s3 = tw_set_held (tw_set_trace (tw_set_q s1 qb) tr) rb /\
+    exists evs, tr = evs ++ tw_trace s1 /\
+      Forall (fun e => match e with TwEvPop _ _ | TwEvPeek _ _ => True | _ => False end) evs.
 Proof.
   intros s s3 s1 EX Eq. destruct (tw_held s) as [x|]; cbn [bind] in EX.
   - destruct (pop (tw_q s)) as [[q1 r1]|f1]; cbn [bind] in EX; [|discriminate]. tw_proj.
     destruct (peek q1) as [[q2 r2]|f2] eqn:EP; cbn [bind] in EX; [|discriminate]. injection EX as <-.
-    exists q1, r1, q2, r2. eexists. split; [reflexivity|]. split; [exact EP|]. tw_proj. reflexivity.
+    exists q1, r1, q2, r2. eexists. split; [reflexivity|]. split; [exact EP|]. tw_proj. split; [reflexivity|].
+    exists [TwEvPeek TwTCons r2; TwEvPop TwTCons r1]. split; [reflexivity|]. repeat constructor.
   - rewrite Eq in EX. destruct (peek (tw_q s)) as [[q2 r2]|f2] eqn:EP; cbn [bind] in EX; [|discriminate]. injection EX as <-.
-    exists (tw_q s), None, q2, r2. eexists. split; [reflexivity|]. split; [exact EP|]. tw_proj. reflexivity.
+    exists (tw_q s), None, q2, r2. eexists. split; [reflexivity|]. split; [exact EP|]. tw_proj. split; [reflexivity|].
+    exists [TwEvPeek TwTCons r2]. split; [reflexivity|]. repeat constructor.
 Qed.
 
 Lemma tw_cstep_prods : forall s s', tw_cstep s = Some s' -> tw_prods s' = tw_prods s.
@@ -488,7 +492,7 @@ Proof.
     try (injection HS as <-; unfold tw_dispatch;
          repeat match goal with |- context [if ?c then _ else _] => destruct c end; reflexivity).
   match type of HS with match ?X with _ => _ end = _ => destruct X as [s3|f] eqn:EX end; injection HS as <-; [|reflexivity].
-  apply tw_cstep_lockM in EX; [|reflexivity]. destruct EX as (qa & ra & qb & rb & tr & _ & _ & ->). reflexivity.
+  apply tw_cstep_lockM in EX; [|reflexivity]. destruct EX as (qa & ra & qb & rb & tr & _ & _ & -> & _). reflexivity.
 Qed.
 
 (* ---------- the queue: exactly once, in order ---------- *)
@@ -525,7 +529,7 @@ Qed.
 Lemma tw_alloc_ok : forall q es m cap, Rep q es -> count q = nlen es -> size q = cap ->
   alloc_fixed q (len m) = Ok (q, None) \/
   exists q1 a q2, alloc_fixed q (len m) = Ok (q1, Some a) /\ fill_fast q1 a m = Ok q2 /\
-    Rep q2 (es ++ [(a, len m)]) /\ count q2 = nlen (es ++ [(a, len m)]) /\ size q2 = cap /\ abs q2 = abs q ++ [m].
+    Rep q2 (es ++ [(a, len m)]) /\ count q2 = nlen (es ++ [(a, len m)]) /\ size q2 = cap /\ mrb_abs q2 = mrb_abs q ++ [m].
 Proof.
   intros q es m cap HR HC HS. destruct (N.le_gt_cases (len m + 8) cap) as [Hu|Hbig].
   - assert (HU : usable (size q) (len m)) by (unfold usable; lia).
@@ -543,7 +547,7 @@ Lemma tw_peek_ok : forall q es, Rep q es ->
   match es with
   | [] => peek q = Ok (q, None)
   | x :: r => exists q', peek q = Ok (q', Some x) /\ Rep q' es /\ count q' = count q /\ size q' = size q /\
-                         abs q' = abs q /\ fst x + snd x <= size q
+                         mrb_abs q' = mrb_abs q /\ fst x + snd x <= size q
   end.
 Proof.
   intros q es HR. pose proof (peek_spec q es HR) as HP. destruct es as [|x r]; [exact HP|].
@@ -555,7 +559,7 @@ Qed.
 Lemma tw_pop_ok : forall q es, Rep q es -> count q = nlen es ->
   match es with
   | [] => pop q = Ok (q, None)
-  | x :: r => exists q', pop q = Ok (q', Some x) /\ Rep q' r /\ count q' = nlen r /\ size q' = size q /\ abs q' = tl (abs q)
+  | x :: r => exists q', pop q = Ok (q', Some x) /\ Rep q' r /\ count q' = nlen r /\ size q' = size q /\ mrb_abs q' = tl (mrb_abs q)
   end.
 Proof.
   intros q es HR HC. pose proof (pop_spec q es HR HC) as HP. destruct es as [|x r]; [exact HP|].
@@ -565,7 +569,7 @@ Proof.
 Qed.
 
 Lemma tw_read_ok : forall q a sz r, Rep q ((a, sz) :: r) -> a + sz <= size q ->
-  exists m, read_msg q a sz = Ok m /\ abs q = m :: tl (abs q).
+  exists m, read_msg q a sz = Ok m /\ mrb_abs q = m :: tl (mrb_abs q).
 Proof.
   intros q a sz r HR Hle. exists (slice (buf q) a sz). split; [apply read_msg_ok; exact Hle|].
   rewrite (abs_Rep _ _ HR). reflexivity.
@@ -629,9 +633,9 @@ Proof.
     destruct (tw_free (tw_mM s)); [|discriminate].
     match type of HS with match ?X with _ => _ end = _ => destruct X as [s3|f] eqn:EX end.
     + injection HS as <-. apply tw_cstep_lockM in EX; [|reflexivity].
-      destruct EX as (qa & ra & qb & rb & tr & Epop & Epeek & ->).
+      destruct EX as (qa & ra & qb & rb & tr & Epop & Epeek & -> & _).
       assert (A : exists esa, Rep qa esa /\ count qa = nlen esa /\ size qa = cap /\
-                  abs qa = tw_unprocessed s).
+                  mrb_abs qa = tw_unprocessed s).
       { unfold tw_unprocessed, tw_cdone. rewrite Ecpc. destruct (tw_held s) as [x|] eqn:Eh.
         - destruct (HH x eq_refl) as (r & -> & _). pose proof (tw_pop_ok _ _ HR HC) as HP. cbn in HP.
           destruct HP as (q' & EP & HR' & HC' & HS' & HA'). rewrite EP in Epop. injection Epop as <- <-.
@@ -1112,8 +1116,8 @@ Definition tw_close_inv (s : tw_state) : Prop :=
   (forall i p, nth_error (tw_prods s) i = Some p -> tw_in_close (tw_pt_pc p) = true -> i = 0%nat /\ tw_others_done_p s 0) /\
   (tw_quit s = true \/ tw_has_close s ->
      exists p0, nth_error (tw_prods s) 0 = Some p0 /\ tw_closing_pc (tw_pt_pc p0) = true /\ tw_others_done_p s 0) /\
-  (tw_cpc s = TwCUnlockM -> tw_held s = None -> abs (tw_q s) = []) /\
-  (tw_cpc s = TwCDone -> tw_quit s = true /\ abs (tw_q s) = []) /\
+  (tw_cpc s = TwCUnlockM -> tw_held s = None -> mrb_abs (tw_q s) = []) /\
+  (tw_cpc s = TwCDone -> tw_quit s = true /\ mrb_abs (tw_q s) = []) /\
   (tw_quit s = true -> tw_cactive (tw_cpc s) = true \/ tw_cpc s = TwCDone).
 
 Lemma tw_kind_user : forall k body, tw_kind_of (tw_user_msg k body) <> 0.
@@ -1189,7 +1193,7 @@ Proof.
 Qed.
 
 Lemma tw_lockM_empty : forall cap s s', tw_fifo cap s -> tw_cpc s = TwCLockM -> tw_cstep s = Some s' ->
-  tw_held s' = None -> abs (tw_q s') = [].
+  tw_held s' = None -> mrb_abs (tw_q s') = [].
 Proof.
   intros cap s s' (Hf & Hz & es & HR & HC & HSz & HH & HA) Ec HS Hh. unfold tw_cstep in HS. rewrite Ec in HS.
   destruct (tw_free (tw_mM s)); [|discriminate].
@@ -1205,7 +1209,7 @@ Proof.
        - tw_proj. pose proof (tw_peek_ok _ _ HR) as HP. destruct es as [|y r'].
          + rewrite HP in EX. discriminate.
          + destruct HP as (q'' & EP' & _). rewrite EP' in EX. discriminate. }
-  apply tw_cstep_lockM in EX; [|reflexivity]. destruct EX as (qa & ra & qb & rb & tr & Epop & Epeek & ->).
+  apply tw_cstep_lockM in EX; [|reflexivity]. destruct EX as (qa & ra & qb & rb & tr & Epop & Epeek & -> & _).
   tw_proj. subst rb.
   assert (A : exists esa, Rep qa esa).
   { destruct (tw_held s) as [x|] eqn:Eh.
@@ -1241,7 +1245,7 @@ Proof.
     try solve [injection HS as <-; tw_proj; cbn [tw_ctrans]; repeat split; intros; try discriminate; try congruence; auto].
   - (* CLockM *)
     match type of HS with match ?X with _ => _ end = _ => destruct X as [s3|f] eqn:EX end; injection HS as <-.
-    + apply tw_cstep_lockM in EX; [|reflexivity]. destruct EX as (qa & ra & qb & rb & tr & _ & _ & ->). tw_proj.
+    + apply tw_cstep_lockM in EX; [|reflexivity]. destruct EX as (qa & ra & qb & rb & tr & _ & _ & -> & _). tw_proj.
       cbn [tw_ctrans]. repeat split; intros; try discriminate; auto.
     + tw_proj. rewrite Ecpc. cbn [tw_ctrans]. repeat split; intros; try discriminate; auto.
   - (* CLockP, message read *)
@@ -1376,7 +1380,7 @@ Qed.
    at their process-lock positions) followed by the close, and nothing follows the close *)
 Lemma tw_close_post : forall fx cap progs s, tw_wf cap progs -> tw_wf_close progs -> tw_reach fx cap progs s ->
   In TwAEnd (tw_applied s) ->
-  tw_cpc s = TwCDone /\ tw_final s = true /\ abs (tw_q s) = [] /\ tw_held s = None /\
+  tw_cpc s = TwCDone /\ tw_final s = true /\ mrb_abs (tw_q s) = [] /\ tw_held s = None /\
   tw_msgs_of (tw_applied s) = tw_acc_msgs s /\
   exists l, tw_applied s = l ++ [TwAEnd] /\ ~ In TwAEnd l.
 Proof.
@@ -1490,10 +1494,10 @@ Proof. vm_compute. reflexivity. Qed.
 Definition tw_ex_check : bool :=
   match tw_run false (tw_init 128 tw_ex_prog) tw_ex_sched, tw_run true (tw_init 128 tw_ex_prog) tw_ex_sched with
   | Some s, Some s' =>
-    tw_final s && tw_final s' && Nat.eqb (length (tw_acc_msgs s)) 4 && Nat.eqb (length (tw_applied s)) 5 &&
+    tw_final s && tw_final s' && Nat.eqb (length (tw_acc_msgs s)) 5 && Nat.eqb (length (tw_applied s)) 6 &&
     existsb (fun a => match a with TwAEnd => true | _ => false end) (tw_applied s) &&
     existsb (fun a => match a with TwAEnd => true | _ => false end) (tw_applied s') &&
-    existsb (fun e => match e with TwEvFlushed (TwTProd 0) 0 0 => true | _ => false end) (tw_trace s)
+    (existsb (fun e => match e with TwEvFlushed (TwTProd 0) 2 3 => true | _ => false end) (tw_trace s) && Nat.eqb (tw_ntickets s) 2)
   | _, _ => false
   end.
 Lemma tw_ex_check_true : tw_ex_check = true.
@@ -1504,9 +1508,9 @@ Proof.
   split.
   - split; lia.
   - intros [|[|[|i]]] cs H; cbn in H; try discriminate; injection H as <-; cbn.
-    + intros pre post Hx. destruct pre as [|a [|b [|c pre]]]; cbn in Hx; try discriminate.
-      * injection Hx as _ _ Hx. subst. reflexivity.
-      * injection Hx as _ _ _ Hx. destruct pre; discriminate.
+    + intros pre post Hx. destruct pre as [|a [|b [|c [|d pre]]]]; cbn in Hx; try discriminate.
+      * injection Hx as _ _ _ Hx. subst. reflexivity.
+      * injection Hx as _ _ _ _ Hx. destruct pre; discriminate.
     + intros [H|[]]. discriminate.
 Qed.
 
@@ -1794,11 +1798,11 @@ Proof.
     intros m Hm; tw_proj; apply tw_app_self_nil in Hm; discriminate].
   - (* CLockM *)
     match type of HS with match ?X with _ => _ end = _ => destruct X as [s3|f] eqn:EX end; injection HS as <-.
-    + pose proof EX as EX0. apply tw_cstep_lockM in EX; [|reflexivity]. destruct EX as (qa & ra & qb & rb & tr & _ & _ & Es3).
+    + pose proof EX as EX0. apply tw_cstep_lockM in EX; [|reflexivity]. destruct EX as (qa & ra & qb & rb & tr & _ & _ & Es3 & _).
       split; [rewrite Es3; reflexivity|]. split; [discriminate|]. split; [discriminate|]. split.
       * intro Hid. left. split; [reflexivity|]. unfold tw_cidle in Hid. tw_proj.
         destruct (tw_held s3) eqn:Eh3; [discriminate|].
-        assert (Hab : abs (tw_q (tw_set_cpc s3 TwCUnlockM)) = []).
+        assert (Hab : mrb_abs (tw_q (tw_set_cpc s3 TwCUnlockM)) = []).
         { eapply (tw_lockM_empty cap s); eauto. }
         unfold tw_unprocessed, tw_cdone. tw_proj. rewrite ?Eh3. exact Hab.
       * intros m Hm. rewrite Es3 in Hm. tw_proj. apply tw_app_self_nil in Hm. discriminate.
@@ -1841,18 +1845,968 @@ Proof.
     exfalso. unfold tw_cstep in HS. rewrite Hcd in HS. discriminate.
 Qed.
 
-Lemma tw_live_init : forall fx cap progs, tw_wf_live progs -> tw_live_inv fx (tw_init cap progs).
+Lemma tw_live_init : forall fx cap progs, cap <= 2147483648 -> tw_wf_live progs -> tw_live_inv fx (tw_init cap progs).
 Proof.
-  intros fx cap progs (cs & rest & -> & Hec). unfold tw_live_inv, tw_init, tw_cidle, tw_unprocessed, tw_cdone, tw_processed, tw_has_close. tw_proj.
+  intros fx cap progs Hcap (cs & rest & -> & Hec).
+  unfold tw_live_inv, tw_init, tw_cidle, tw_unprocessed, tw_cdone, tw_processed, tw_has_close. tw_proj.
   assert (Hst : forall i p, nth_error (map (fun cs0 => tw_mk_pt TwPStart cs0 0) (cs :: rest)) i = Some p -> tw_pt_pc p = TwPStart).
   { intros i p E. apply nth_error_In, in_map_iff in E. destruct E as (c0 & <- & _). reflexivity. }
   split; [discriminate|]. split; [discriminate|]. split.
-  { intros _ Hun. exfalso. apply Hun. destruct (init_MInv cap) as (es & HR & _).
-    - (* any capacity: abs of the zeroed buffer with head = tail = 0 is empty *)
-      admit.
-    - admit. }
+  { intros _ Hun. exfalso. apply Hun. apply abs_init. exact Hcap. }
   split. { intros _ i p Hn Hcl. rewrite (Hst _ _ Hn) in Hcl. discriminate. }
   split. { intros (m & [] & _). }
   split. { intros _. exact Hst. }
   exists (tw_mk_pt TwPStart cs 0). split; [reflexivity|]. left. split; [discriminate|exact Hec].
-Abort.
+Qed.
+
+Lemma tw_live_reach : forall fx cap progs s, tw_wf cap progs -> tw_wf_close progs -> tw_wf_live progs ->
+  tw_reach fx cap progs s -> tw_live_inv fx s.
+Proof.
+  intros fx cap progs s Hwf Hwc Hwl HR. induction HR as [|s t s' HR IH HS|s d HR IH].
+  - destruct Hwf as (_ & Hc). apply tw_live_init; auto.
+  - pose proof (tw_all_reach _ _ _ _ Hwf Hwc HR) as HA.
+    pose proof (tw_all_reach _ _ _ _ Hwf Hwc (tw_reach_step _ _ _ _ _ _ HR HS)) as HA'.
+    unfold tw_step in HS. destruct (tw_fault s); [discriminate|]. destruct t as [i|].
+    + destruct (nth_error (tw_prods s) i) as [p|] eqn:En; [|discriminate]. exact (tw_live_pstep fx cap s i p s' HA HA' IH En HS).
+    + exact (tw_live_cstep fx cap s s' HA IH HS).
+  - destruct IH as (W0 & W1 & W2 & J1 & Q2 & O1 & D1). unfold tw_live_inv, tw_cidle, tw_unprocessed, tw_cdone, tw_processed, tw_has_close in *. tw_proj.
+    repeat split; auto.
+Qed.
+
+(* ---- when can a thread not take a step ---- *)
+Lemma tw_pstep_none : forall fx s i p, tw_pstep fx s i p = None ->
+  tw_pt_pc p = TwPDone \/ (tw_pt_pc p = TwPStart /\ i <> 0%nat /\ tw_opened s = false) \/
+  (tw_pt_pc p = TwPHJoin /\ tw_others_done s i = false) \/
+  (tw_pt_pc p = TwPJoin /\ tw_cpc s <> TwCDone) \/ tw_psleeping s p = true \/
+  ((exists d, tw_pt_pc p = TwPDefLock d) /\ tw_mP s <> None) \/
+  ((tw_pt_pc p = TwPTicketLock \/ exists c, tw_pt_pc p = TwPSendLock c) /\ tw_mM s <> None) \/
+  ((exists k, tw_pt_pc p = TwPSigLock k) /\ tw_mE s <> None).
+Proof.
+  intros fx s i p H. unfold tw_pstep in H. unfold tw_psleeping.
+  destruct (tw_pt_pc p) eqn:Epc; auto;
+    repeat match type of H with
+    | (if ?c then _ else _) = None => let E := fresh "Ec" in destruct c eqn:E
+    | (match ?x with TwCDone => _ | _ => _ end) = None => let E := fresh "Ecp" in destruct x eqn:E
+    | (let '(_, _) := tw_send_begin _ _ _ _ in _) = None => unfold tw_send_begin in H
+    | (match alloc_fixed ?a ?b with _ => _ end) = None => destruct (alloc_fixed a b) as [[? [?|]]|?]
+    | (match fill_fast ?a ?b ?c with _ => _ end) = None => destruct (fill_fast a b c)
+    end; try discriminate.
+  - right. left. apply Bool.orb_false_iff in Ec. destruct Ec as (E1 & E2). apply Nat.eqb_neq in E1. auto.
+  - right. right. left. auto.
+  - do 5 right. left. split; [eauto|]. destruct (tw_mP s); [discriminate|discriminate].
+  - do 6 right. left. split; [auto|]. destruct (tw_mM s); [discriminate|discriminate].
+  - do 6 right. left. split; [eauto|]. destruct (tw_mM s); [discriminate|discriminate].
+  - do 7 right. split; [eauto|]. destruct (tw_mE s); [discriminate|discriminate].
+  - do 4 right. left. apply N.leb_gt in Ec. apply N.ltb_lt. exact Ec.
+  - do 4 right. left. apply N.leb_gt in Ec. apply N.ltb_lt. exact Ec.
+  - do 3 right. left. split; auto. congruence.
+  - do 3 right. left. split; auto. congruence.
+  - do 3 right. left. split; auto. congruence.
+  - do 3 right. left. split; auto. congruence.
+  - do 3 right. left. split; auto. congruence.
+  - do 3 right. left. split; auto. congruence.
+  - do 3 right. left. split; auto. congruence.
+  - do 3 right. left. split; auto. congruence.
+  - do 3 right. left. split; auto. congruence.
+Qed.
+
+Lemma tw_free_false : forall o, tw_free o = false -> o <> None.
+Proof. destruct o; cbn; intros; [discriminate|discriminate]. Qed.
+
+Lemma tw_cstep_none : forall s, tw_cstep s = None ->
+  tw_cpc s = TwCDone \/ (tw_cpc s = TwCWaitReacq /\ tw_signalled s = false) \/
+  ((tw_cpc s = TwCWaitLock \/ tw_cpc s = TwCWaitReacq) /\ tw_mE s <> None) \/
+  (tw_cpc s = TwCLockM /\ tw_mM s <> None) \/ (tw_cpc s = TwCLockP /\ tw_mP s <> None).
+Proof.
+  intros s H. unfold tw_cstep in H. destruct (tw_cpc s) eqn:Ec; auto.
+  all: repeat match type of H with
+       | (if ?c then _ else _) = None => let E := fresh "Ex" in destruct c eqn:E
+       | (match ?x with _ => _ end) = None => destruct x
+       end; try discriminate.
+  - right. right. left. split; auto. apply tw_free_false; auto.
+  - apply Bool.andb_false_iff in Ex. destruct Ex as [Ex|Ex]; [right; left; auto|].
+    right. right. left. split; auto. apply tw_free_false; auto.
+  - right. right. right. left. split; auto. apply tw_free_false; auto.
+  - right. right. right. right. split; auto. apply tw_free_false; auto.
+Qed.
+
+(* whoever holds a mutex can take a step *)
+Lemma tw_holder_enabled : forall fx s t, tw_lock_inv s -> tw_fault s = None ->
+  tw_mM s = Some t \/ tw_mP s = Some t \/ tw_mE s = Some t -> tw_step fx s t <> None.
+Proof.
+  intros fx s t ((M1 & M2) & (P1 & P2) & (E1 & E2)) Hf Hown. unfold tw_step. rewrite Hf.
+  destruct t as [i|].
+  - assert (Hp : exists p, nth_error (tw_prods s) i = Some p /\
+               (tw_pholdsM (tw_pt_pc p) = true \/ tw_pholdsP (tw_pt_pc p) = true \/ tw_pholdsE (tw_pt_pc p) = true)).
+    { destruct Hown as [H|[H|H]]; [apply M1 in H|apply P1 in H|apply E1 in H]; destruct H as (p & Hn & Hh); exists p; auto. }
+    destruct Hp as (p & Hn & Hh). rewrite Hn. unfold tw_pstep.
+    destruct (tw_pt_pc p); cbn in Hh; try (destruct Hh as [Hh|[Hh|Hh]]; discriminate);
+      try discriminate;
+      repeat match goal with
+      | |- context [let '(_, _) := tw_send_begin _ _ _ _ in _] => unfold tw_send_begin
+      | |- (if ?c then _ else _) <> None => destruct c
+      end; discriminate.
+  - assert (Hc : tw_choldsM (tw_cpc s) = true \/ tw_choldsP (tw_cpc s) = true \/ tw_choldsE (tw_cpc s) = true).
+    { destruct Hown as [H|[H|H]]; [apply M2 in H|apply P2 in H|apply E2 in H]; auto. }
+    unfold tw_cstep. destruct (tw_cpc s); cbn in Hc; try (destruct Hc as [Hc|[Hc|Hc]]; discriminate);
+      repeat match goal with
+      | |- (match ?x with Some _ => _ | None => _ end) <> None => destruct x
+      | |- (if ?c then _ else _) <> None => destruct c
+      end; discriminate.
+Qed.
+
+Lemma tw_forallb_false : forall (A : Type) (f : A -> bool) l, forallb f l = false -> exists x, In x l /\ f x = false.
+Proof.
+  induction l as [|a r IH]; cbn; intros H; [discriminate|].
+  destruct (f a) eqn:E; [|exists a; auto]. destruct (IH H) as (x & Hin & Hx). exists x. auto.
+Qed.
+
+Lemma tw_combine_seq_nth : forall (A : Type) (l : list A) a j q,
+  In (j, q) (combine (seq a (length l)) l) -> (a <= j)%nat /\ nth_error l (j - a) = Some q.
+Proof.
+  induction l as [|x r IH]; intros a j q Hin; cbn in Hin; [contradiction|].
+  destruct Hin as [Hin|Hin].
+  - injection Hin as <- <-. split; [lia|]. rewrite Nat.sub_diag. reflexivity.
+  - apply IH in Hin. destruct Hin as (Hle & Hn). split; [lia|].
+    replace (j - a)%nat with (S (j - S a)) by lia. exact Hn.
+Qed.
+
+Lemma tw_others_done_false : forall s i, tw_others_done s i = false ->
+  exists j q, nth_error (tw_prods s) j = Some q /\ j <> i /\ tw_pt_pc q <> TwPDone.
+Proof.
+  intros s i H. unfold tw_others_done in H. apply tw_forallb_false in H. destruct H as (b & Hin & Hb). subst b.
+  apply in_map_iff in Hin. destruct Hin as ((j & q) & Hx & Hin). cbn [fst snd] in Hx.
+  apply Bool.orb_false_iff in Hx. destruct Hx as (H1 & H2). apply Nat.eqb_neq in H1.
+  apply tw_combine_seq_nth in Hin. destruct Hin as (_ & Hn). rewrite Nat.sub_0_r in Hn.
+  exists j, q. split; auto. split; auto. intro E. unfold tw_pdone in H2. rewrite E in H2. discriminate.
+Qed.
+
+(* C07 no_deadlock, repaired close: in every reachable state either everything is finished, or some thread
+   sleeps (time will wake it), or some thread can take a step *)
+Lemma tw_no_deadlock : forall cap progs s, tw_wf cap progs -> tw_wf_close progs -> tw_wf_live progs ->
+  tw_reach true cap progs s ->
+  tw_final s = true \/ tw_some_sleeping s = true \/ exists t, tw_step true s t <> None.
+Proof.
+  intros cap progs s Hwf Hwc Hwl HR.
+  destruct (tw_final s) eqn:Efin; auto. destruct (tw_some_sleeping s) eqn:Esl; auto. right. right.
+  destruct (tw_some_enabled true s) eqn:Een.
+  { unfold tw_some_enabled in Een. apply existsb_exists in Een. destruct Een as (t & _ & Ht). exists t.
+    unfold tw_enabled in Ht. destruct (tw_step true s t); [discriminate|discriminate]. }
+  exfalso. pose proof (tw_not_enabled_all _ _ Een) as Hnone.
+  destruct (tw_all_reach _ _ _ _ Hwf Hwc HR) as (HL & HF & HH & HW & (K1 & K2 & K3 & K4 & K5) & HJ).
+  destruct (tw_live_reach _ _ _ _ Hwf Hwc Hwl HR) as (W0 & W1 & W2 & J1 & Q2 & O1 & D1).
+  pose proof HF as (Hf & Hz & es & HRep & HC & HSz & HHd & HA).
+  (* no mutex is held *)
+  assert (HM : tw_mM s = None).
+  { destruct (tw_mM s) as [t|] eqn:E; auto. exfalso. apply (tw_holder_enabled true s t HL Hf); auto. }
+  assert (HP : tw_mP s = None).
+  { destruct (tw_mP s) as [t|] eqn:E; auto. exfalso. apply (tw_holder_enabled true s t HL Hf); auto. }
+  assert (HE : tw_mE s = None).
+  { destruct (tw_mE s) as [t|] eqn:E; auto. exfalso. apply (tw_holder_enabled true s t HL Hf); auto. }
+  (* nobody sleeps *)
+  assert (Hns : forall i p, nth_error (tw_prods s) i = Some p -> tw_psleeping s p = false).
+  { intros i p Hn. unfold tw_some_sleeping in Esl. destruct (tw_psleeping s p) eqn:E; auto.
+    assert (existsb (tw_psleeping s) (tw_prods s) = true); [|congruence].
+    apply existsb_exists. exists p. split; auto. eapply nth_error_In; eauto. }
+  (* where a blocked producer can be *)
+  assert (Hpb : forall i p, nth_error (tw_prods s) i = Some p ->
+            tw_pt_pc p = TwPDone \/ (tw_pt_pc p = TwPStart /\ i <> 0%nat /\ tw_opened s = false) \/
+            (tw_pt_pc p = TwPHJoin /\ tw_others_done s i = false) \/ (tw_pt_pc p = TwPJoin /\ tw_cpc s <> TwCDone)).
+  { intros i p Hn. pose proof (Hnone (TwTProd i)) as Hs. unfold tw_step in Hs. rewrite Hf, Hn in Hs.
+    destruct (tw_pstep_none _ _ _ _ Hs) as [H|[H|[H|[H|[H|[(_ & H)|[(_ & H)|(_ & H)]]]]]]]; auto; try congruence.
+    rewrite (Hns _ _ Hn) in H. discriminate. }
+  (* the consumer *)
+  assert (Hcb : tw_cpc s = TwCDone \/ (tw_cpc s = TwCWaitReacq /\ tw_signalled s = false)).
+  { pose proof (Hnone TwTCons) as Hs. unfold tw_step in Hs. rewrite Hf in Hs.
+    destruct (tw_cstep_none _ Hs) as [H|[H|[(_ & H)|[(_ & H)|(_ & H)]]]]; auto; congruence. }
+  destruct D1 as (p0 & Hn0 & D1).
+  destruct D1 as [(Hnd0 & Hec)|(Hd0 & Hcd & Ho)].
+  2: { (* everything is finished *)
+    unfold tw_final in Efin. rewrite Hcd, Bool.andb_true_r in Efin. apply tw_forallb_false in Efin.
+    destruct Efin as (q & Hin & Hq). apply In_nth_error in Hin. destruct Hin as (j & Hj).
+    unfold tw_pdone in Hq. destruct (Nat.eq_dec j 0) as [->|Hne].
+    - rewrite Hn0 in Hj. injection Hj as <-. rewrite Hd0 in Hq. discriminate.
+    - rewrite (Ho _ _ Hj Hne) in Hq. discriminate. }
+  destruct (Hpb _ _ Hn0) as [H|[(_ & H & _)|[(Hpc & Hod)|(Hpc & Hcn)]]]; [contradiction|contradiction| |].
+  - (* producer 0 waits for another producer: that one is blocked too, but cannot be *)
+    destruct (tw_others_done_false _ _ Hod) as (j & q & Hj & Hne & Hqd).
+    destruct (Hpb _ _ Hj) as [H|[(Hs & _ & Hop)|[(Hq & _)|(Hq & _)]]]; [contradiction| | |].
+    + rewrite (O1 Hop _ _ Hn0) in Hpc. discriminate.
+    + pose proof (HH _ _ Hj) as Hhd. unfold tw_head_ok in Hhd. rewrite Hq in Hhd. destruct Hhd as (r & Er).
+      pose proof (HW _ _ Hj) as Hc. destruct j; [contradiction|]. cbn in Hc. apply Hc. rewrite Er. left. reflexivity.
+    + pose proof (HH _ _ Hj) as Hhd. unfold tw_head_ok in Hhd. rewrite Hq in Hhd. destruct Hhd as (r & Er).
+      pose proof (HW _ _ Hj) as Hc. destruct j; [contradiction|]. cbn in Hc. apply Hc. rewrite Er. left. reflexivity.
+  - (* producer 0 waits for the writer thread, which waits for the event *)
+    destruct Hcb as [Hc|(Hc & Hsg)]; [contradiction|].
+    assert (Hcl : tw_has_close s) by (apply (J1 eq_refl 0%nat p0); auto; rewrite Hpc; reflexivity).
+    destruct Hcl as (e & Hin & Hk).
+    assert (Hm : In (snd e) (tw_acc_msgs s)) by (unfold tw_acc_msgs; apply in_map; exact Hin).
+    rewrite HA in Hm. apply in_app_or in Hm. destruct Hm as [Hm|Hm].
+    + assert (Hq : tw_quit s = true) by (apply Q2; exists (snd e); auto).
+      destruct (K5 Hq) as [Hx|Hx]; rewrite Hc in Hx; discriminate.
+    + assert (Hun : tw_unprocessed s <> []) by (intro E; rewrite E in Hm; contradiction).
+      assert (Hid : tw_cidle s = true) by (unfold tw_cidle; rewrite Hc; reflexivity).
+      destruct (W2 Hid Hun) as [Hfl|(j & q & Hj & Hw)].
+      * destruct (W1 Hc Hsg Hfl) as (j & q & Hj & Hs).
+        destruct (Hpb _ _ Hj) as [H|[(H & _)|[(H & _)|(H & _)]]]; rewrite H in Hs; discriminate.
+      * destruct (Hpb _ _ Hj) as [H|[(H & _)|[(H & _)|(H & _)]]]; rewrite H in Hw; discriminate.
+Qed.
+
+Lemma tw_ex_wf_live : tw_wf_live tw_ex_prog /\ tw_wf_live tw_hang_prog.
+Proof.
+  split.
+  - eexists. eexists. split; [reflexivity|]. exists [TwCFlush; TwCSend TwMkUser (repeat 7 59); TwCFlush]. reflexivity.
+  - eexists. eexists. split; [reflexivity|]. exists [TwCSend TwMkUser (repeat 7 59); TwCSend TwMkUser (repeat 8 19)]. reflexivity.
+Qed.
+
+(* ---------- flush tickets ---------- *)
+Definition tw_is_flushed (e : tw_ev) : bool := match e with TwEvFlushed _ _ _ => true | _ => false end.
+Definition tw_tickets_of (s : tw_state) : list tw_ev := filter tw_is_ticket (tw_trace s).
+Definition tw_flushed_of (s : tw_state) : list tw_ev := filter tw_is_flushed (tw_trace s).
+
+(* producer i is inside jls_twr_flush with ticket id taken when `mark` messages had been accepted *)
+Definition tw_in_flush (pc : tw_ppc) (id : N) (mark : nat) : Prop :=
+  match pc with
+  | TwPTicketUnlock id' mark' | TwPFlushSleep id' mark' _ | TwPFlushWake id' mark' _ _ => id' = id /\ mark' = mark
+  | TwPSendLock c | TwPSendUnlock c _ | TwPSendSleep c | TwPSendWake c _ => tw_sd_k c = TwKFlush id mark
+  | TwPSigLock k | TwPSigSignal k | TwPSigUnlock k => k = TwKFlush id mark
+  | _ => False
+  end.
+
+Lemma tw_begin_ghost : forall cs i s idx s' p', tw_begin i s cs idx = (s', p') ->
+  tw_tickets_of s' = tw_tickets_of s /\ tw_flushed_of s' = tw_flushed_of s /\ (forall id mark, ~ tw_in_flush (tw_pt_pc p') id mark).
+Proof.
+  unfold tw_tickets_of, tw_flushed_of.
+  induction cs as [|c r IH]; intros i s idx s' p' H; cbn [tw_begin] in H.
+  - injection H as <- <-. repeat split; auto.
+  - destruct c.
+    + injection H as <- <-. repeat split; auto.
+    + destruct (tw_is_fsr k && tw_drop s); [|unfold tw_send_begin in H]; injection H as <- <-; repeat split; auto;
+        intros id mark Hx; cbn in Hx; discriminate.
+    + injection H as <- <-. repeat split; auto.
+    + apply IH in H. destruct H as (H1 & H2 & H3). rewrite H1, H2. repeat split; auto.
+    + destruct (Nat.ltb 1 (tw_nprod s)); [|unfold tw_send_begin in H]; injection H as <- <-; repeat split; auto;
+        intros id mark Hx; cbn in Hx; discriminate.
+Qed.
+
+Lemma tw_ret_ghost : forall i s p rc s' p', tw_ret i s p rc = (s', p') ->
+  tw_tickets_of s' = tw_tickets_of s /\ tw_flushed_of s' = tw_flushed_of s /\ (forall id mark, ~ tw_in_flush (tw_pt_pc p') id mark).
+Proof.
+  intros i s p rc s' p' H. unfold tw_ret in H. destruct (tw_pt_calls p) as [|c r].
+  - eapply tw_begin_ghost; eauto.
+  - apply tw_begin_ghost in H. destruct H as (H1 & H2 & H3). unfold tw_tickets_of, tw_flushed_of in *. tw_proj.
+    cbn [filter tw_is_ticket tw_is_flushed] in *. auto.
+Qed.
+
+Lemma tw_send_done_ghost : forall fx i s p k ok s' p', tw_send_done fx i s p k ok = (s', p') ->
+  tw_tickets_of s' = tw_tickets_of s /\
+  (tw_flushed_of s' = tw_flushed_of s \/
+   (exists id mark, k = TwKFlush id mark /\ id <= tw_proc_id s /\
+      tw_flushed_of s' = TwEvFlushed (TwTProd i) (tw_pt_idx p) mark :: tw_flushed_of s)) /\
+  (forall id mark, tw_in_flush (tw_pt_pc p') id mark -> k = TwKFlush id mark /\ tw_pt_idx p' = tw_pt_idx p).
+Proof.
+  intros fx i s p k ok s' p' H. unfold tw_send_done in H. destruct k as [|id mark|].
+  - apply tw_ret_ghost in H. destruct H as (H1 & H2 & H3). split; auto. split; auto. intros id mark Hx. exfalso. eapply H3; eauto.
+  - destruct (id <=? tw_proc_id (tw_log (TwEvNow (TwTProd i) (tw_now s)) s)) eqn:E.
+    + apply tw_ret_ghost in H. destruct H as (H1 & H2 & H3). unfold tw_tickets_of, tw_flushed_of in *. tw_proj.
+      cbn [filter tw_is_ticket tw_is_flushed] in *. split; auto. split.
+      * right. exists id, mark. split; auto. split; [apply N.leb_le; exact E|exact H2].
+      * intros id' mark' Hx. exfalso. eapply H3; eauto.
+    + injection H as <- <-. unfold tw_tickets_of, tw_flushed_of. tw_proj. cbn [filter tw_is_ticket tw_is_flushed].
+      split; auto. split; auto. intros id' mark' (-> & ->). auto.
+  - destruct (ok || negb fx); [|unfold tw_send_begin in H]; injection H as <- <-; unfold tw_tickets_of, tw_flushed_of; tw_proj;
+      cbn [filter tw_is_ticket tw_is_flushed]; (split; auto; split; auto); intros id mark Hx; cbn in Hx; try contradiction; discriminate.
+Qed.
+
+Definition tw_psum3 (s : tw_state) (i : nat) (p : tw_pthread) (s' : tw_state) : Prop :=
+  exists p1, nth_error (tw_prods s') i = Some p1 /\
+    tw_proc_id s' = tw_proc_id s /\
+    ((tw_tickets_of s' = tw_tickets_of s /\ tw_send_id s' = tw_send_id s) \/
+     (tw_pt_pc p = TwPTicketLock /\
+      tw_send_id s' = (tw_send_id s + 1) mod 18446744073709551616 /\
+      tw_tickets_of s' = TwEvTicket (TwTProd i) (tw_pt_idx p) ((tw_send_id s + 1) mod 18446744073709551616) (length (tw_accepted s)) :: tw_tickets_of s /\
+      tw_pt_pc p1 = TwPTicketUnlock ((tw_send_id s + 1) mod 18446744073709551616) (length (tw_accepted s)) /\ tw_pt_idx p1 = tw_pt_idx p)) /\
+    (tw_flushed_of s' = tw_flushed_of s \/
+     (exists id mark, tw_in_flush (tw_pt_pc p) id mark /\ id <= tw_proc_id s /\
+        tw_flushed_of s' = TwEvFlushed (TwTProd i) (tw_pt_idx p) mark :: tw_flushed_of s)) /\
+    (forall id mark, tw_in_flush (tw_pt_pc p1) id mark ->
+       (tw_in_flush (tw_pt_pc p) id mark /\ tw_pt_idx p1 = tw_pt_idx p) \/ tw_pt_pc p = TwPTicketLock).
+
+Lemma tw_pstep_sum3 : forall fx s i p s', nth_error (tw_prods s) i = Some p -> tw_pstep fx s i p = Some s' ->
+  tw_psum3 s i p s' \/ (exists f, s' = tw_set_fault s (Some f)).
+Proof.
+  intros fx s i p s' Hn HS. unfold tw_pstep in HS.
+  assert (Hnth : forall X Y, tw_prods X = tw_prods s -> nth_error (tw_prods (tw_setp X i Y)) i = Some Y).
+  { intros X Y E. tw_proj. rewrite E. eapply tw_nth_upd_eq; eauto. }
+  destruct (tw_pt_pc p) eqn:Epc; tw_pcases HS; try (right; injection HS as <-; eexists; reflexivity).
+  all: left.
+  all: try match type of HS with context [if (?j =? 0)%nat then tw_set_opened ?s0 true else ?s0] => destruct (j =? 0)%nat eqn:Ei0 end.
+  all: try (tw_helper HS; injection HS as <-; exists p2; rewrite ?Epc;
+            pose proof F as F0; tw_use_frame F0;
+            split; [apply Hnth; tw_proj; congruence|];
+            split; [tw_proj; congruence|];
+            first [ pose proof (tw_begin_ghost _ _ _ _ _ _ EX) as (G1 & G2 & G3)
+                  | pose proof (tw_ret_ghost _ _ _ _ _ _ EX) as (G1 & G2 & G3)
+                  | pose proof (tw_send_done_ghost _ _ _ _ _ _ _ _ EX) as (G1 & G2 & G3) ];
+            unfold tw_tickets_of, tw_flushed_of in *; tw_proj; cbn [filter tw_is_ticket tw_is_flushed] in *;
+            split; [left; split; [exact G1|congruence]|];
+            split; [first [left; exact G2
+                          |destruct G2 as [G2|(id0 & mark0 & Gk & Gle & G2)];
+                           [left; exact G2|right; exists id0, mark0; cbn [tw_in_flush]; rewrite ?Gk; repeat split; auto]]|];
+            intros id0 mark0 Hif;
+            first [ exfalso; eapply G3; eauto
+                  | destruct (G3 _ _ Hif) as (Gk & Gi); left; cbn [tw_in_flush]; rewrite ?Gk; auto ]).
+  all: try (injection HS as <-; cbn [fst snd];
+     match goal with |- tw_psum3 _ _ _ (tw_setp ?A _ ?B) => exists B end; rewrite ?Epc;
+     split; [apply Hnth; tw_proj; try (destruct (tw_cpc s)); reflexivity|];
+     split; [tw_proj; try (destruct (tw_cpc s)); reflexivity|];
+     unfold tw_tickets_of, tw_flushed_of; tw_proj; cbn [filter tw_is_ticket tw_is_flushed];
+     split; [first [left; split; try (destruct (tw_cpc s)); reflexivity | right; repeat split; reflexivity]|];
+     split; [left; try (destruct (tw_cpc s)); reflexivity|];
+     intros id0 mark0 Hif; cbn [tw_in_flush tw_with_pc tw_pt_pc tw_sd_k] in *;
+     first [ contradiction | discriminate Hif | right; reflexivity
+           | left; split; [exact Hif|reflexivity]
+           | left; split; [injection Hif; auto|reflexivity] ]).
+  (* jls_twr_flush returns 0 after a poll *)
+  tw_helper HS. injection HS as <-. exists p2. rewrite ?Epc. pose proof F as F0. tw_use_frame F0.
+  pose proof (tw_ret_ghost _ _ _ _ _ _ EX) as (G1 & G2 & G3).
+  unfold tw_tickets_of, tw_flushed_of in *. tw_proj. cbn [filter tw_is_ticket tw_is_flushed] in *.
+  split; [apply Hnth; tw_proj; congruence|]. split; [congruence|].
+  split; [left; split; [exact G1|congruence]|].
+  split; [right; exists id, mark; cbn [tw_in_flush]; split; [auto|]; split; [|exact G2]|].
+  - match goal with H : (id <=? tw_proc_id s) = true |- _ => apply N.leb_le in H; exact H end.
+  - intros id0 mark0 Hif. exfalso. eapply G3; eauto.
+Qed.
+
+Lemma tw_filter_poppeek : forall (f : tw_ev -> bool) evs l,
+  (forall t r, f (TwEvPop t r) = false) -> (forall t r, f (TwEvPeek t r) = false) ->
+  Forall (fun e => match e with TwEvPop _ _ | TwEvPeek _ _ => True | _ => False end) evs ->
+  filter f (evs ++ l) = filter f l.
+Proof.
+  intros f evs l H1 H2 H. induction H as [|e r He Hr IH]; [reflexivity|].
+  cbn. destruct e; try contradiction; rewrite ?H1, ?H2; exact IH.
+Qed.
+
+Lemma tw_cstep_ghost : forall s s', tw_cstep s = Some s' ->
+  tw_tickets_of s' = tw_tickets_of s /\ tw_flushed_of s' = tw_flushed_of s /\ tw_send_id s' = tw_send_id s /\
+  ((tw_processed s' = tw_processed s /\ tw_proc_id s' = tw_proc_id s) \/
+   (exists m, tw_processed s' = tw_processed s ++ [m] /\
+      tw_proc_id s' = (if tw_kind_of m =? 1 then N.max (tw_flush_id m) (tw_proc_id s) else tw_proc_id s))).
+Proof.
+  intros s s' HS. unfold tw_cstep in HS. unfold tw_tickets_of, tw_flushed_of, tw_processed.
+  destruct (tw_cpc s) eqn:Ecpc; tw_ccases HS;
+    try solve [injection HS as <-; tw_proj; cbn [filter tw_is_ticket tw_is_flushed]; repeat split; auto].
+  - match type of HS with match ?X with _ => _ end = _ => destruct X as [s3|f] eqn:EX end; injection HS as <-.
+    + apply tw_cstep_lockM in EX; [|reflexivity]. destruct EX as (qa & ra & qb & rb & tr & Epop & Epeek & -> & evs & -> & Hev).
+      tw_proj. rewrite !tw_filter_poppeek by (auto; intros; reflexivity). cbn [filter tw_is_ticket tw_is_flushed]. repeat split; auto.
+    + tw_proj. repeat split; auto.
+  - injection HS as <-. unfold tw_dispatch.
+    destruct (tw_kind_of rm =? 0) eqn:E0; [|destruct (tw_kind_of rm =? 1) eqn:E1]; tw_proj;
+      cbn [filter tw_is_ticket tw_is_flushed]; rewrite tw_msgs_of_app; cbn [tw_msgs_of];
+      (split; [reflexivity|]; split; [reflexivity|]; split; [reflexivity|]); right; exists rm; rewrite ?E1; auto.
+    apply N.eqb_eq in E0. rewrite E0. auto.
+Qed.
+
+(* ---------- flush_post ---------- *)
+Lemma tw_of_le_le : forall n x, tw_of_le (tw_le n x) = x mod 256 ^ N.of_nat n.
+Proof.
+  induction n as [|n IH]; intros x.
+  - cbn. rewrite N.mod_1_r. reflexivity.
+  - cbn [tw_le tw_of_le fold_right]. fold (tw_of_le (tw_le n (x / 256))). rewrite IH.
+    rewrite Nat2N.inj_succ, N.pow_succ_r'. rewrite N.mod_mul_r; [reflexivity|discriminate|].
+    apply N.pow_nonzero. discriminate.
+Qed.
+
+Lemma tw_flush_id_msg : forall id, tw_flush_id (tw_flush_msg id) = id mod 18446744073709551616.
+Proof.
+  intros id. unfold tw_flush_id, tw_flush_msg.
+  change (skipn 32 (1 :: repeat 0 31 ++ tw_le 8 id)) with (tw_le 8 id).
+  change (firstn 8 (tw_le 8 id)) with (tw_le 8 id). rewrite tw_of_le_le. reflexivity.
+Qed.
+
+Definition tw_NW (s : tw_state) : Prop := N.of_nat (length (tw_tickets_of s)) < 18446744073709551616.
+
+Definition tw_flush_inv (s : tw_state) : Prop :=
+  (tw_NW s -> tw_send_id s = N.of_nat (length (tw_tickets_of s))) /\
+  (forall t idx id mark, In (TwEvTicket t idx id mark) (tw_tickets_of s) ->
+     (mark <= length (tw_accepted s))%nat /\ (tw_NW s -> 1 <= id /\ id <= tw_send_id s)) /\
+  (tw_NW s -> forall e, In e (tw_accepted s) -> tw_kind_of (snd e) = 1 -> tw_flush_id (snd e) <= tw_send_id s) /\
+  (tw_NW s -> forall k e, nth_error (tw_accepted s) k = Some e -> tw_kind_of (snd e) = 1 ->
+     forall t idx id mark, In (TwEvTicket t idx id mark) (tw_tickets_of s) -> id <= tw_flush_id (snd e) -> (mark <= k)%nat) /\
+  (forall i p id mark, nth_error (tw_prods s) i = Some p -> tw_in_flush (tw_pt_pc p) id mark ->
+     In (TwEvTicket (TwTProd i) (tw_pt_idx p) id mark) (tw_tickets_of s)) /\
+  (tw_proc_id s = 0 \/ exists k m, nth_error (tw_processed s) k = Some m /\ tw_kind_of m = 1 /\ tw_flush_id m = tw_proc_id s) /\
+  (tw_NW s -> forall t idx mark, In (TwEvFlushed t idx mark) (tw_flushed_of s) ->
+     exists k m id, (mark <= k)%nat /\ nth_error (tw_processed s) k = Some m /\ tw_kind_of m = 1 /\
+                    In (TwEvTicket t idx id mark) (tw_tickets_of s)).
+
+Lemma tw_kind_user1 : forall k body, tw_kind_of (tw_user_msg k body) <> 1.
+Proof. intros k body. unfold tw_kind_of, tw_user_msg. cbn. destruct k; cbn; discriminate. Qed.
+
+Lemma tw_flush_cstep : forall s s', tw_flush_inv s -> tw_cstep s = Some s' -> tw_flush_inv s'.
+Proof.
+  intros s s' (F0 & F4 & F3 & F2 & F7 & F8 & FP) HS.
+  pose proof (tw_cstep_prods _ _ HS) as Hp.
+  destruct (tw_cstep_facts _ _ HS) as (_ & Ha & _).
+  destruct (tw_cstep_ghost _ _ HS) as (Gt & Gf & Gs & Gp).
+  unfold tw_flush_inv, tw_NW. rewrite Gt, Gf, Gs, Ha, Hp.
+  split; [exact F0|]. split; [exact F4|]. split; [exact F3|]. split; [exact F2|]. split; [exact F7|].
+  destruct Gp as [(Gp1 & Gp2)|(m & Gp1 & Gp2)].
+  - rewrite Gp1, Gp2. split; [exact F8|exact FP].
+  - rewrite Gp1, Gp2. split.
+    + destruct (tw_kind_of m =? 1) eqn:Ek.
+      * apply N.eqb_eq in Ek. destruct (N.max_spec (tw_flush_id m) (tw_proc_id s)) as [(Hlt & ->)|(Hle & ->)].
+        -- destruct F8 as [F8|(k & m0 & Hk & Hk1 & Hk2)]; [left; exact F8|right].
+           exists k, m0. split; [rewrite nth_error_app1; auto; apply nth_error_Some; congruence|auto].
+        -- right. exists (length (tw_processed s)), m. split; [rewrite nth_error_app2, Nat.sub_diag; auto|auto].
+      * destruct F8 as [F8|(k & m0 & Hk & Hk1 & Hk2)]; [left; exact F8|right].
+        exists k, m0. split; [rewrite nth_error_app1; auto; apply nth_error_Some; congruence|auto].
+    + intros HN t idx mark Hin. destruct (FP HN t idx mark Hin) as (k & m0 & id0 & Hle & Hk & Hk1 & Htk).
+      exists k, m0, id0. split; auto. split; [|auto]. rewrite nth_error_app1; auto. apply nth_error_Some. congruence.
+Qed.
+
+Lemma tw_flush_pstep : forall fx cap s i p s', tw_all_inv cap s -> tw_fifo cap s' -> tw_flush_inv s ->
+  nth_error (tw_prods s) i = Some p -> tw_pstep fx s i p = Some s' -> tw_flush_inv s'.
+Proof.
+  intros fx cap s i p s' HA HF' (F0 & F4 & F3 & F2 & F7 & F8 & FP) Hn HS.
+  destruct HA as (HL & HF & HH & HW & HK & HJ).
+  destruct (tw_pstep_sum _ _ _ _ _ (HH _ _ Hn) HS) as [SUM|(f & ->)].
+  2: { destruct HF' as (Hf & _). discriminate. }
+  destruct (tw_pstep_sum3 _ _ _ _ _ Hn HS) as [SUM3|(f & ->)].
+  2: { destruct HF' as (Hf & _). discriminate. }
+  destruct SUM as (s1 & p1 & Es' & Sp & Sc & Sh & Sf & Sfl & Sq & Sa & SE1 & SE2 & (pre & Spre) & Sap & Scs).
+  destruct SUM3 as (p1' & Hself & Gproc & Gt & Gf & Gin).
+  assert (p1' = p1) as ->.
+  { assert (nth_error (tw_prods s') i = Some p1) by (rewrite Es'; tw_proj; rewrite Sp; eapply tw_nth_upd_eq; eauto). congruence. }
+  assert (Hoth : forall j q, j <> i -> nth_error (tw_prods s') j = Some q -> nth_error (tw_prods s) j = Some q).
+  { intros j q Hne Hq. rewrite Es' in Hq. tw_proj. rewrite Sp in Hq. rewrite tw_nth_upd_neq in Hq by congruence. exact Hq. }
+  assert (Eproc : tw_processed s' = tw_processed s).
+  { unfold tw_processed. rewrite Es'. tw_proj. destruct Sap as [Sap|[(d & Sap)|(_ & _ & Sap & _)]]; rewrite Sap; auto;
+      rewrite tw_msgs_of_app; cbn; rewrite app_nil_r; reflexivity. }
+  (* accepted: unchanged, or one message appended by a send *)
+  assert (Eacc : tw_accepted s' = tw_accepted s \/
+                 (exists c, tw_pt_pc p = TwPSendLock c /\ tw_accepted s' = tw_accepted s ++ [(i, tw_pt_idx p, tw_sd_msg c)])).
+  { rewrite Es'. tw_proj. destruct Sa as [(_ & Sa)|(c & q1 & a & Epc & _ & _ & _ & Sa & _)]; [left; exact Sa|right; exists c; auto]. }
+  assert (Hlen : (length (tw_accepted s) <= length (tw_accepted s'))%nat).
+  { destruct Eacc as [->|(c & _ & ->)]; [lia|rewrite app_length; lia]. }
+  (* tickets: unchanged, or one new ticket *)
+  assert (Htsub : forall e, In e (tw_tickets_of s) -> In e (tw_tickets_of s')).
+  { intros e He. destruct Gt as [(-> & _)|(_ & _ & -> & _)]; [exact He|right; exact He]. }
+  assert (HNW : tw_NW s' -> tw_NW s).
+  { unfold tw_NW. destruct Gt as [(-> & _)|(_ & _ & -> & _)]; [auto|]. cbn [length]. lia. }
+  assert (Hsid : tw_NW s' -> tw_send_id s <= tw_send_id s').
+  { intro HN. destruct Gt as [(_ & ->)|(_ & -> & Et & _)]; [lia|].
+    pose proof (F0 (HNW HN)) as E0. unfold tw_NW in HN. rewrite Et in HN. cbn [length] in HN.
+    rewrite N.mod_small by lia. lia. }
+  split; [|split; [|split; [|split; [|split; [|split]]]]].
+  - (* F0 *)
+    intro HN. pose proof (F0 (HNW HN)) as E0. destruct Gt as [(Et & Es)|(_ & Es & Et & _)].
+    + rewrite Et, Es. exact E0.
+    + rewrite Es, Et. cbn [length]. unfold tw_NW in HN. rewrite Et in HN. cbn [length] in HN. rewrite N.mod_small by lia. lia.
+  - (* F4 *)
+    intros t idx id mark Hin.
+    assert (Hold : In (TwEvTicket t idx id mark) (tw_tickets_of s) -> (mark <= length (tw_accepted s'))%nat /\ (tw_NW s' -> 1 <= id /\ id <= tw_send_id s')).
+    { intro Ho. destruct (F4 _ _ _ _ Ho) as (H1 & H2). split; [lia|]. intro HN. destruct (H2 (HNW HN)). pose proof (Hsid HN). lia. }
+    destruct Gt as [(Et & Es)|(Epc & Es & Et & _)]; [rewrite Et in Hin; auto|].
+    rewrite Et in Hin. destruct Hin as [Hin|Hin]; [|auto]. injection Hin as <- <- <- <-.
+    split; [exact Hlen|]. intro HN. rewrite Es. pose proof (F0 (HNW HN)) as E0. unfold tw_NW in HN. rewrite Et in HN. cbn [length] in HN.
+    rewrite N.mod_small by lia. lia.
+  - (* F3 *)
+    intros HN e Hin Hk. pose proof (Hsid HN) as Hs. destruct Eacc as [Ea|(c & Epc & Ea)]; rewrite Ea in Hin.
+    + pose proof (F3 (HNW HN) e Hin Hk). lia.
+    + apply in_app_or in Hin. destruct Hin as [Hin|[<-|[]]]; [pose proof (F3 (HNW HN) e Hin Hk); lia|].
+      cbn [snd] in *. pose proof (HH _ _ Hn) as Hhd. unfold tw_head_ok in Hhd. rewrite Epc in Hhd. cbn [tw_pc_head] in Hhd.
+      unfold tw_send_head in Hhd. destruct (tw_sd_k c) as [|id mark|] eqn:Ek.
+      * destruct Hhd as (mk & body & r & _ & Em). rewrite Em in Hk. exfalso. eapply tw_kind_user1; eauto.
+      * destruct Hhd as (_ & Em). rewrite Em, tw_flush_id_msg.
+        assert (Hif : tw_in_flush (tw_pt_pc p) id mark) by (rewrite Epc; exact Ek).
+        destruct (F4 _ _ _ _ (F7 _ _ _ _ Hn Hif)) as (_ & H2). destruct (H2 (HNW HN)) as (H3 & H4).
+        pose proof (N.mod_le id 18446744073709551616 ltac:(discriminate)). lia.
+      * destruct Hhd as (_ & Em). rewrite Em in Hk. discriminate.
+  - (* F2 *)
+    intros HN k e Hk Hk1 t idx id mark Hin Hle.
+    assert (Hkold : (k < length (tw_accepted s))%nat -> nth_error (tw_accepted s) k = Some e).
+    { intro Hlt. destruct Eacc as [Ea|(c & _ & Ea)]; rewrite Ea in Hk; auto. rewrite nth_error_app1 in Hk; auto. }
+    destruct (Nat.lt_ge_cases k (length (tw_accepted s))) as [Hlt|Hge].
+    + (* an old entry *)
+      pose proof (Hkold Hlt) as Hk0.
+      destruct Gt as [(Et & Es)|(Epc & Es & Et & _)]; rewrite Et in Hin.
+      * eapply (F2 (HNW HN)); eauto.
+      * destruct Hin as [Hin|Hin]; [|eapply (F2 (HNW HN)); eauto].
+        injection Hin as <- <- <- <-. exfalso.
+        pose proof (F3 (HNW HN) e (nth_error_In _ _ Hk0) Hk1) as H3. pose proof (F0 (HNW HN)) as E0.
+        unfold tw_NW in HN. rewrite Et in HN. cbn [length] in HN. rewrite N.mod_small in Hle by lia. lia.
+    + (* the entry that has just been queued: every ticket was taken before *)
+      assert (Hm : (mark <= length (tw_accepted s))%nat).
+      { destruct Gt as [(Et & Es)|(Epc & Es & Et & _)]; rewrite Et in Hin.
+        - destruct (F4 _ _ _ _ Hin); auto.
+        - destruct Hin as [Hin|Hin]; [injection Hin as <- <- <- <-; lia|destruct (F4 _ _ _ _ Hin); auto]. }
+      lia.
+  - (* F7 *)
+    intros j q id mark Hq Hif. destruct (Nat.eq_dec j i) as [->|Hne].
+    + rewrite Hself in Hq. injection Hq as <-. destruct (Gin _ _ Hif) as [(Hold & Hidx)|Epc].
+      * rewrite Hidx. apply Htsub. eapply F7; eauto.
+      * destruct Gt as [(Et & Es)|(_ & Es & Et & Epc1 & Hidx)].
+        -- exfalso. rewrite Epc in *. (* tickets unchanged at the ticket step: impossible *)
+           clear - HS Et Epc. unfold tw_pstep in HS. rewrite Epc in HS. destruct (tw_free (tw_mM s)); [|discriminate].
+           injection HS as <-. unfold tw_tickets_of in Et. tw_proj. cbn [filter tw_is_ticket] in Et.
+           apply (f_equal (@length _)) in Et. cbn [length] in Et. lia.
+        -- rewrite Et, Hidx. rewrite Epc1 in Hif. destruct Hif as (<- & <-). left. reflexivity.
+    + apply Htsub. eapply F7; eauto.
+  - (* F8 *)
+    rewrite Gproc, Eproc. exact F8.
+  - (* FP *)
+    intros HN t idx mark Hin. rewrite Eproc.
+    assert (Hold : In (TwEvFlushed t idx mark) (tw_flushed_of s) ->
+              exists k m id, (mark <= k)%nat /\ nth_error (tw_processed s) k = Some m /\ tw_kind_of m = 1 /\
+                             In (TwEvTicket t idx id mark) (tw_tickets_of s')).
+    { intro Ho. destruct (FP (HNW HN) _ _ _ Ho) as (k & m & id & H1 & H2 & H3 & H4). exists k, m, id. auto. }
+    destruct Gf as [Ef|(id & mark0 & Hif & Hle & Ef)]; rewrite Ef in Hin; [auto|].
+    destruct Hin as [Hin|Hin]; [|auto]. injection Hin as <- <- <-.
+    pose proof (F7 _ _ _ _ Hn Hif) as Htk. destruct (F4 _ _ _ _ Htk) as (_ & H2). destruct (H2 (HNW HN)) as (H3 & H4).
+    destruct F8 as [F8|(k & m & Hk & Hk1 & Hk2)]; [lia|].
+    exists k, m, id. split; [|auto].
+    (* the processed flush message is in accepted at the same position *)
+    destruct HF as (_ & _ & es & _ & _ & _ & _ & HAq).
+    assert (Hacc : nth_error (tw_acc_msgs s) k = Some m).
+    { rewrite HAq. rewrite nth_error_app1; auto. apply nth_error_Some. congruence. }
+    unfold tw_acc_msgs in Hacc. rewrite nth_error_map in Hacc. destruct (nth_error (tw_accepted s) k) as [e|] eqn:Ee; [|discriminate].
+    injection Hacc as Hm. eapply (F2 (HNW HN) k e Ee); [rewrite Hm; exact Hk1|exact Htk|rewrite Hm; lia].
+Qed.
+
+Lemma tw_flush_reach : forall fx cap progs s, tw_wf cap progs -> tw_wf_close progs -> tw_reach fx cap progs s -> tw_flush_inv s.
+Proof.
+  intros fx cap progs s Hwf Hwc HR. induction HR as [|s t s' HR IH HS|s d HR IH].
+  - unfold tw_flush_inv, tw_NW, tw_tickets_of, tw_flushed_of, tw_processed, tw_init. tw_proj. cbn [filter length].
+    split; [reflexivity|]. split; [intros ? ? ? ? []|]. split; [intros _ ? []|]. split; [intros _ [|?] ? Hx; discriminate|].
+    split; [|split; [left; reflexivity|intros _ ? ? ? []]].
+    intros i p id mark Hn Hif. apply nth_error_In, in_map_iff in Hn. destruct Hn as (cs & <- & _). contradiction.
+  - pose proof (tw_all_reach _ _ _ _ Hwf Hwc HR) as HA.
+    pose proof (tw_fifo_reach _ _ _ _ Hwf (tw_reach_step _ _ _ _ _ _ HR HS)) as HF'.
+    unfold tw_step in HS. destruct (tw_fault s); [discriminate|]. destruct t as [i|].
+    + destruct (nth_error (tw_prods s) i) as [p|] eqn:En; [|discriminate]. exact (tw_flush_pstep fx cap s i p s' HA HF' IH En HS).
+    + exact (tw_flush_cstep s s' IH HS).
+  - destruct IH as (F0 & F4 & F3 & F2 & F7 & F8 & FP). unfold tw_flush_inv, tw_NW, tw_tickets_of, tw_flushed_of, tw_processed in *. tw_proj.
+    cbn [filter tw_is_ticket tw_is_flushed].
+    split; [exact F0|]. split; [exact F4|]. split; [exact F3|]. split; [exact F2|]. split; [exact F7|]. split; [exact F8|exact FP].
+Qed.
+
+(* C07 flush_post: if jls_twr_flush of thread t (its call idx) has returned 0 - the ghost event TwEvFlushed is logged in
+   the step in which it returns - and its ticket was taken when `mark` messages had been accepted (TwEvTicket), then
+   the first `mark` accepted messages have all been handed to the writer, in order, and a FLUSH message
+   (jls_wr_flush: fsync) has been processed after the last of them.  Holds from the state in which the flush
+   returns onwards (the processed list only grows).  Premise: fewer than 2^64 flush tickets so far. *)
+Lemma tw_flush_post : forall fx cap progs s t idx mark,
+  tw_wf cap progs -> tw_wf_close progs -> tw_reach fx cap progs s ->
+  N.of_nat (tw_ntickets s) < 18446744073709551616 ->
+  In (TwEvFlushed t idx mark) (tw_trace s) ->
+  (exists id, In (TwEvTicket t idx id mark) (tw_trace s)) /\
+  firstn mark (tw_acc_msgs s) = firstn mark (tw_processed s) /\
+  exists k m, (mark <= k)%nat /\ nth_error (tw_processed s) k = Some m /\ tw_kind_of m = 1.
+Proof.
+  intros fx cap progs s t idx mark Hwf Hwc HR HN Hin.
+  destruct (tw_flush_reach _ _ _ _ Hwf Hwc HR) as (_ & _ & _ & _ & _ & _ & FP).
+  assert (Hin' : In (TwEvFlushed t idx mark) (tw_flushed_of s)) by (unfold tw_flushed_of; apply filter_In; auto).
+  destruct (FP HN _ _ _ Hin') as (k & m & id & Hle & Hk & Hk1 & Htk).
+  split; [exists id; unfold tw_tickets_of in Htk; apply filter_In in Htk; tauto|].
+  split; [|exists k, m; auto].
+  destruct (tw_fifo_reach _ _ _ _ Hwf HR) as (_ & _ & es & _ & _ & _ & _ & HA).
+  rewrite HA. assert (Hlen : (mark <= length (tw_processed s))%nat).
+  { assert (k < length (tw_processed s))%nat by (apply nth_error_Some; congruence). lia. }
+  rewrite firstn_app. replace (mark - length (tw_processed s))%nat with 0%nat by lia. cbn [firstn]. rewrite app_nil_r. reflexivity.
+Qed.
+
+Lemma tw_ex_flush : exists s,
+  tw_wf 128 tw_ex_prog /\ tw_wf_close tw_ex_prog /\ tw_reach false 128 tw_ex_prog s /\
+  N.of_nat (tw_ntickets s) < 18446744073709551616 /\ In (TwEvFlushed (TwTProd 0) 2 3) (tw_trace s).
+Proof.
+  pose proof tw_ex_check_true as H. unfold tw_ex_check in H.
+  destruct (tw_run false (tw_init 128 tw_ex_prog) tw_ex_sched) as [s|] eqn:E; [|discriminate H].
+  destruct (tw_run true (tw_init 128 tw_ex_prog) tw_ex_sched) as [s'|] eqn:E'; [|discriminate H].
+  destruct tw_ex_wf as (Hwf & Hwc).
+  apply andb_prop in H. destruct H as (_ & C6). apply andb_prop in C6. destruct C6 as (C6 & C7).
+  exists s. split; [exact Hwf|]. split; [exact Hwc|].
+  split; [eapply tw_run_reach; [apply tw_reach_init|exact E]|]. clear E E'.
+  apply Nat.eqb_eq in C7. rewrite C7. split; [reflexivity|].
+  apply existsb_exists in C6. destruct C6 as (e & Hin & He).
+  destruct e as [| | | | | | | | | | | | | | | | |t idx mark| |]; try discriminate He.
+  destruct t as [[|i]|]; try discriminate He. destruct idx as [|[|[|idx]]]; try discriminate He.
+  destruct mark as [|[|[|[|mark]]]]; try discriminate He. exact Hin.
+Qed.
+
+(* ---------- a call that returned an error leaves no trace; a call that returned 0 is accepted exactly once ---------- *)
+Definition tw_msgs_with_id (i idx : nat) (acc : list (nat * nat * msg)) : list msg :=
+  map snd (filter (fun e => Nat.eqb (fst (fst e)) i && Nat.eqb (snd (fst e)) idx) acc).
+
+(* what the queue must have accepted from the current call of a thread (None: no statement) *)
+Definition tw_expect (p : tw_pthread) : option (list msg) :=
+  match tw_pt_pc p with
+  | TwPSendUnlock c true => Some [tw_sd_msg c]
+  | TwPSigLock TwKRet | TwPSigSignal TwKRet | TwPSigUnlock TwKRet =>
+    match tw_pt_calls p with TwCSend k body :: _ => Some [tw_user_msg k body] | _ => None end
+  | TwPSendLock _ | TwPSendUnlock _ false | TwPSendSleep _ | TwPSendWake _ _ | TwPStart | TwPDefLock _ | TwPDefUnlock
+  | TwPTicketLock | TwPTicketUnlock _ _ | TwPHJoin | TwPDone => Some []
+  | _ => None
+  end.
+
+Definition tw_new_rets (i : nat) (lo hi : nat) (old new : list tw_ev) (special : tw_ev -> Prop) : Prop :=
+  forall t j c rc, In (TwEvRet t j c rc) new ->
+    In (TwEvRet t j c rc) old \/ special (TwEvRet t j c rc) \/
+    (t = TwTProd i /\ (lo <= j < hi)%nat /\ exists b, c = TwCFlags b).
+
+Lemma tw_begin_rets : forall cs i s idx s' p', tw_begin i s cs idx = (s', p') ->
+  (idx <= tw_pt_idx p')%nat /\ tw_expect p' = Some [] /\
+  tw_new_rets i idx (tw_pt_idx p') (tw_trace s) (tw_trace s') (fun _ => False).
+Proof.
+  induction cs as [|c r IH]; intros i s idx s' p' H; cbn [tw_begin] in H.
+  - injection H as <- <-. split; [cbn; lia|]. split; [reflexivity|]. intros t j c rc Hin. tw_proj. destruct Hin as [Hin|Hin]; [discriminate|auto].
+  - destruct c.
+    + injection H as <- <-. split; [cbn; lia|]. split; [reflexivity|]. intros t j c rc Hin. tw_proj. destruct Hin as [Hin|Hin]; [discriminate|auto].
+    + destruct (tw_is_fsr k && tw_drop s); [|unfold tw_send_begin in H]; injection H as <- <-;
+        (split; [cbn; lia|]; split; [reflexivity|]); intros t j c rc Hin; tw_proj;
+        repeat (destruct Hin as [Hin|Hin]; [discriminate|]); auto.
+    + injection H as <- <-. split; [cbn; lia|]. split; [reflexivity|]. intros t j c rc Hin. tw_proj. destruct Hin as [Hin|Hin]; [discriminate|auto].
+    + apply IH in H. destruct H as (Hle & Hex & Hnew). split; [lia|]. split; [exact Hex|].
+      intros t j c rc Hin. destruct (Hnew _ _ _ _ Hin) as [Ho|[[]|(-> & Hj & Hb)]].
+      * tw_proj. destruct Ho as [Ho|[Ho|Ho]]; [|discriminate|auto].
+        injection Ho as <- <- <- <-. right. right. split; [reflexivity|]. split; [lia|]. eauto.
+      * right. right. split; [reflexivity|]. split; [lia|exact Hb].
+    + destruct (Nat.ltb 1 (tw_nprod s)); [|unfold tw_send_begin in H]; injection H as <- <-;
+        (split; [cbn; lia|]; split; [reflexivity|]); intros t j c rc Hin; tw_proj;
+        repeat (destruct Hin as [Hin|Hin]; [discriminate|]); auto.
+Qed.
+
+Lemma tw_ret_rets : forall i s p rc s' p' c r, tw_pt_calls p = c :: r -> tw_ret i s p rc = (s', p') ->
+  (tw_pt_idx p < tw_pt_idx p')%nat /\ tw_expect p' = Some [] /\
+  tw_new_rets i (S (tw_pt_idx p)) (tw_pt_idx p') (tw_trace s) (tw_trace s')
+              (fun e => e = TwEvRet (TwTProd i) (tw_pt_idx p) c rc).
+Proof.
+  intros i s p rc s' p' c r Ec H. unfold tw_ret in H. rewrite Ec in H.
+  apply tw_begin_rets in H. destruct H as (Hle & Hex & Hnew). split; [lia|]. split; [exact Hex|].
+  intros t j c0 rc0 Hin. destruct (Hnew _ _ _ _ Hin) as [Ho|[[]|H3]]; [|auto].
+  tw_proj. destruct Ho as [Ho|Ho]; [right; left; symmetry; exact Ho|auto].
+Qed.
+
+Definition tw_ret_info (pc : tw_ppc) (rc : option N) : Prop :=
+  (rc = Some 0 /\ pc = TwPSigUnlock TwKRet) \/
+  (rc = Some tw_EBUSY /\ exists c, tw_sd_k c = TwKRet /\ (pc = TwPSendUnlock c false \/ exists w, pc = TwPSendWake c w)).
+
+Lemma tw_send_done_rets : forall fx i s p k ok s' p' c r, tw_pt_calls p = c :: r -> tw_send_done fx i s p k ok = (s', p') ->
+  (tw_pt_idx p' = tw_pt_idx p /\ (forall t j c0 rc0, In (TwEvRet t j c0 rc0) (tw_trace s') -> In (TwEvRet t j c0 rc0) (tw_trace s)) /\
+   (tw_expect p' = None \/ (tw_expect p' = Some [] /\ k = TwKClose /\ ok = false))) \/
+  ((tw_pt_idx p < tw_pt_idx p')%nat /\ tw_expect p' = Some [] /\ k <> TwKClose /\
+   tw_new_rets i (S (tw_pt_idx p)) (tw_pt_idx p') (tw_trace s) (tw_trace s')
+     (fun e => e = TwEvRet (TwTProd i) (tw_pt_idx p) c (match k with TwKRet => Some (if ok then 0 else tw_EBUSY) | _ => Some 0 end))).
+Proof.
+  intros fx i s p k ok s' p' c r Ec H. unfold tw_send_done in H. destruct k as [|id mark|].
+  - right. destruct (tw_ret_rets _ _ _ _ _ _ _ _ Ec H) as (H1 & H2 & H3). split; auto. split; auto. split; [discriminate|exact H3].
+  - destruct (id <=? _).
+    + right. destruct (tw_ret_rets _ _ _ _ _ _ _ _ Ec H) as (H1 & H2 & H3). split; auto. split; auto. split; [discriminate|].
+      intros t j c0 rc0 Hin. destruct (H3 _ _ _ _ Hin) as [Ho|[Ho|Ho]]; auto.
+      tw_proj. destruct Ho as [Ho|[Ho|Ho]]; [discriminate|discriminate|auto].
+    + injection H as <- <-. left. split; [reflexivity|]. split; [|left; reflexivity].
+      intros t j c0 rc0 Hin. tw_proj. destruct Hin as [Hin|Hin]; [discriminate|auto].
+  - destruct (ok || negb fx) eqn:Eok; [|unfold tw_send_begin in H]; injection H as <- <-; left.
+    + split; [reflexivity|]. split; [auto|left; reflexivity].
+    + split; [reflexivity|]. split; [|right; split; [reflexivity|split; [reflexivity|destruct ok; [discriminate|reflexivity]]]].
+      intros t j c0 rc0 Hin. tw_proj. repeat (destruct Hin as [Hin|Hin]; [discriminate|]). auto.
+Qed.
+
+Definition tw_psum5 (s : tw_state) (i : nat) (p : tw_pthread) (s' : tw_state) : Prop :=
+  exists p1, nth_error (tw_prods s') i = Some p1 /\ (tw_pt_idx p <= tw_pt_idx p1)%nat /\
+  (forall t j c rc, In (TwEvRet t j c rc) (tw_trace s') -> In (TwEvRet t j c rc) (tw_trace s) \/
+       (t = TwTProd i /\ (tw_pt_idx p <= j < tw_pt_idx p1)%nat /\
+        (forall k body, c = TwCSend k body ->
+           j = tw_pt_idx p /\ tw_ret_info (tw_pt_pc p) rc /\ exists r, tw_pt_calls p = c :: r))) /\
+  ((tw_pt_idx p1 = tw_pt_idx p /\
+    (tw_expect p1 = None \/ tw_expect p1 = tw_expect p \/
+     (exists c, tw_pt_pc p = TwPSendLock c /\ tw_pt_pc p1 = TwPSendUnlock c true /\
+                tw_accepted s' = tw_accepted s ++ [(i, tw_pt_idx p, tw_sd_msg c)]))) \/
+   ((tw_pt_idx p < tw_pt_idx p1)%nat /\ tw_expect p1 = Some [])).
+
+Lemma tw_pstep_sum5 : forall fx s i p s', nth_error (tw_prods s) i = Some p -> tw_head_ok p -> tw_pstep fx s i p = Some s' ->
+  tw_psum5 s i p s' \/ (exists f, s' = tw_set_fault s (Some f)).
+Proof.
+  intros fx s i p s' Hn Hp HS. unfold tw_head_ok in Hp. unfold tw_pstep in HS.
+  assert (Hnth : forall X Y, tw_prods X = tw_prods s -> nth_error (tw_prods (tw_setp X i Y)) i = Some Y).
+  { intros X Y E. tw_proj. rewrite E. eapply tw_nth_upd_eq; eauto. }
+  destruct (tw_pt_pc p) eqn:Epc; cbn [tw_pc_head] in Hp; tw_pcases HS; try (right; injection HS as <-; eexists; reflexivity).
+  all: left.
+  all: try match type of HS with context [if (?j =? 0)%nat then tw_set_opened ?s0 true else ?s0] => destruct (j =? 0)%nat eqn:Ei0 end.
+  (* PStart *)
+  1,2: tw_helper HS; injection HS as <-; exists p2; pose proof F as F0; tw_use_frame F0;
+       destruct (tw_begin_rets _ _ _ _ _ _ EX) as (R1 & R2 & R3);
+       (split; [apply Hnth; tw_proj; congruence|]); (split; [exact R1|]);
+       (split; [intros t j c rc Hin; destruct (R3 _ _ _ _ Hin) as [Ho|[[]|(-> & Hj & (b & ->))]];
+                [tw_proj; destruct Ho as [Ho|Ho]; [discriminate|auto]
+                |right; split; [reflexivity|]; split; [exact Hj|intros; discriminate]]|]);
+       destruct (Nat.eq_dec (tw_pt_idx p2) (tw_pt_idx p)) as [E|E];
+       [left; split; [exact E|right; left; unfold tw_expect at 2; rewrite Epc; exact R2]|right; split; [lia|exact R2]].
+  (* a call returns through tw_ret: definitions, flush, close *)
+  all: try (tw_helper HS; injection HS as <-; exists p2; pose proof F as F0; tw_use_frame F0;
+     let c0 := fresh "c0" in let r0 := fresh "r0" in let Ecs := fresh "Ecs" in
+     destruct (tw_pt_calls p) as [|c0 r0] eqn:Ecs;
+     [ exfalso; repeat match goal with H : exists _, _ |- _ => destruct H end; discriminate |];
+     destruct (tw_ret_rets _ _ _ _ _ _ _ _ Ecs EX) as (R1 & R2 & R3);
+     (split; [apply Hnth; tw_proj; congruence|]); (split; [lia|]);
+     (split; [intros t j c rc Hin; destruct (R3 _ _ _ _ Hin) as [Ho|[Ho|(-> & Hj & (b & ->))]];
+              [ tw_proj; repeat (destruct Ho as [Ho|Ho]; [discriminate|]); auto
+              | injection Ho as -> -> -> ->; right; split; [reflexivity|]; split; [lia|];
+                intros k0 b0 ->; exfalso; repeat match goal with H : exists _, _ |- _ => destruct H end; congruence
+              | right; split; [reflexivity|]; split; [lia|intros; discriminate] ]|]);
+     right; split; [lia|exact R2]).
+  (* msg_send returns *)
+  all: try (tw_helper HS; injection HS as <-; exists p2; pose proof F as F0; tw_use_frame F0;
+     let c0 := fresh "c0" in let r0 := fresh "r0" in let Ecs := fresh "Ecs" in
+     destruct (tw_pt_calls p) as [|c0 r0] eqn:Ecs;
+     [ exfalso; unfold tw_send_head, tw_cont_head in Hp;
+       repeat match goal with H : exists _, _ |- _ => destruct H | H : _ /\ _ |- _ => destruct H
+                         | H : match ?k with TwKRet => _ | TwKFlush _ _ => _ | TwKClose => _ end |- _ => destruct k end;
+       discriminate |];
+     destruct (tw_send_done_rets _ _ _ _ _ _ _ _ _ _ Ecs EX) as [(A1 & A2 & A3)|(B1 & B2 & B3 & B4)];
+     [ (split; [apply Hnth; tw_proj; congruence|]); (split; [lia|]);
+       (split; [intros t j c rc Hin; left; apply A2 in Hin; tw_proj; repeat (destruct Hin as [Hin|Hin]; [discriminate|]); auto|]);
+       left; split; [exact A1|]; destruct A3 as [A3|(A3 & A4 & A5)];
+       [left; exact A3|right; left; rewrite A3; unfold tw_expect; rewrite Epc; first [reflexivity | discriminate A5]]
+     | (split; [apply Hnth; tw_proj; congruence|]); (split; [lia|]);
+       (split; [intros t j c rc Hin; destruct (B4 _ _ _ _ Hin) as [Ho|[Ho|(-> & Hj & (b & ->))]];
+                [ tw_proj; repeat (destruct Ho as [Ho|Ho]; [discriminate|]); auto
+                | injection Ho as -> -> -> ->; right; split; [reflexivity|]; split; [lia|];
+                  intros k0 b0 ->; split; [reflexivity|]; split; [|eauto];
+                  unfold tw_send_head, tw_cont_head, tw_ret_info in *;
+                  repeat match goal with H : exists _, _ |- _ => destruct H | H : _ /\ _ |- _ => destruct H end;
+                  first [ match goal with H : match ?k with TwKRet => _ | TwKFlush _ _ => _ | TwKClose => _ end |- _ => destruct k eqn:Ek end
+                        | idtac ];
+                  repeat match goal with H : exists _, _ |- _ => destruct H | H : _ /\ _ |- _ => destruct H end;
+                  try congruence;
+                  first [ left; split; [reflexivity|exact Epc]
+                        | right; split; [reflexivity|]; eexists; split; [eassumption|]; first [left; exact Epc | right; eexists; exact Epc] ]
+                | right; split; [reflexivity|]; split; [lia|intros; discriminate] ]|]);
+       right; split; [lia|exact B2] ]).
+  (* direct paths *)
+  all: try (injection HS as <-; cbn [fst snd];
+     match goal with |- tw_psum5 _ _ _ (tw_setp ?A _ ?B) => exists B end;
+     (split; [apply Hnth; tw_proj; try (destruct (tw_cpc s)); reflexivity|]); (split; [cbn [tw_with_pc tw_pt_idx]; lia|]);
+     (split; [intros t j c0 rc0 Hin; left; tw_proj; try (destruct (tw_cpc s); tw_proj);
+              repeat (destruct Hin as [Hin|Hin]; [discriminate|]); exact Hin|]);
+     left; split; [reflexivity|]; unfold tw_expect; cbn [tw_with_pc tw_pt_pc tw_pt_calls]; rewrite ?Epc;
+     first [ right; left; reflexivity | left; reflexivity
+           | right; right; eexists; split; [reflexivity|split; reflexivity]
+           | (* PSendUnlock c true -> PSigLock (sd_k c) *)
+             unfold tw_send_head in Hp; destruct (tw_sd_k c) eqn:Ek;
+             [ destruct Hp as (mk & body & r & Ecalls & Em); rewrite Ecalls, Em; right; left; reflexivity
+             | left; reflexivity | left; reflexivity ]
+           | destruct k; first [right; left; reflexivity | left; reflexivity] ]).
+  - tw_helper HS. injection HS as <-. exists p2. pose proof F as F0. tw_use_frame F0.
+    destruct (tw_pt_calls p) as [|c0 r0] eqn:Ecs.
+    { exfalso. unfold tw_send_head, tw_cont_head in Hp.
+       repeat match goal with H : exists _, _ |- _ => destruct H | H : _ /\ _ |- _ => destruct H
+                         | H : match ?k with TwKRet => _ | TwKFlush _ _ => _ | TwKClose => _ end |- _ => destruct k end;
+       discriminate. }
+    destruct (tw_send_done_rets _ _ _ _ _ _ _ _ _ _ Ecs EX) as [(A1 & A2 & A3)|(B1 & B2 & B3 & B4)].
+    + split; [apply Hnth; tw_proj; congruence|]. split; [lia|].
+      split. { intros t j c1 rc Hin; left; apply A2 in Hin; tw_proj; repeat (destruct Hin as [Hin|Hin]; [discriminate|]); auto. }
+      left; split; [exact A1|]; destruct A3 as [A3|(A3 & A4 & A5)];
+       [left; exact A3|right; left; rewrite A3; unfold tw_expect; rewrite Epc; first [reflexivity | discriminate A5]].
+    + split; [apply Hnth; tw_proj; congruence|]. split; [lia|].
+      split.
+      { intros t j c1 rc Hin; destruct (B4 _ _ _ _ Hin) as [Ho|[Ho|(-> & Hj & (b & ->))]].
+        - tw_proj; repeat (destruct Ho as [Ho|Ho]; [discriminate|]); auto.
+        - injection Ho as -> -> -> ->; right; split; [reflexivity|]; split; [lia|].
+          intros k0 b0 ->; split; [reflexivity|]; split; [|eauto].
+          unfold tw_send_head, tw_cont_head, tw_ret_info in *.
+          destruct (tw_sd_k c) eqn:Ek.
+          * right. split; [reflexivity|]. exists c. split; [exact Ek|]. left. exact Epc.
+          * destruct Hp as ((r & Er) & _). congruence.
+          * congruence.
+        - right; split; [reflexivity|]; split; [lia|intros; discriminate]. }
+      right; split; [lia|exact B2].
+  - tw_helper HS. injection HS as <-. exists p2. pose proof F as F0. tw_use_frame F0.
+    destruct (tw_pt_calls p) as [|c0 r0] eqn:Ecs.
+    { exfalso. unfold tw_send_head, tw_cont_head in Hp.
+       repeat match goal with H : exists _, _ |- _ => destruct H | H : _ /\ _ |- _ => destruct H
+                         | H : match ?k with TwKRet => _ | TwKFlush _ _ => _ | TwKClose => _ end |- _ => destruct k end;
+       discriminate. }
+    destruct (tw_send_done_rets _ _ _ _ _ _ _ _ _ _ Ecs EX) as [(A1 & A2 & A3)|(B1 & B2 & B3 & B4)].
+    + split; [apply Hnth; tw_proj; congruence|]. split; [lia|].
+      split. { intros t j c1 rc Hin; left; apply A2 in Hin; tw_proj; repeat (destruct Hin as [Hin|Hin]; [discriminate|]); auto. }
+      left; split; [exact A1|]; destruct A3 as [A3|(A3 & A4 & A5)];
+       [left; exact A3|right; left; rewrite A3; unfold tw_expect; rewrite Epc; first [reflexivity | discriminate A5]].
+    + split; [apply Hnth; tw_proj; congruence|]. split; [lia|].
+      split.
+      { intros t j c1 rc Hin; destruct (B4 _ _ _ _ Hin) as [Ho|[Ho|(-> & Hj & (b & ->))]].
+        - tw_proj; repeat (destruct Ho as [Ho|Ho]; [discriminate|]); auto.
+        - injection Ho as -> -> -> ->; right; split; [reflexivity|]; split; [lia|].
+          intros k0 b0 ->; split; [reflexivity|]; split; [|eauto].
+          unfold tw_send_head, tw_cont_head, tw_ret_info in *.
+          destruct (tw_sd_k c) eqn:Ek.
+          * right. split; [reflexivity|]. exists c. split; [exact Ek|]. right. eexists. exact Epc.
+          * destruct Hp as ((r & Er) & _). congruence.
+          * congruence.
+        - right; split; [reflexivity|]; split; [lia|intros; discriminate]. }
+      right; split; [lia|exact B2].
+Qed.
+
+Lemma tw_cstep_rets : forall s s' t j c rc, tw_cstep s = Some s' -> In (TwEvRet t j c rc) (tw_trace s') -> In (TwEvRet t j c rc) (tw_trace s).
+Proof.
+  intros s s' t j c rc HS Hin. unfold tw_cstep in HS.
+  destruct (tw_cpc s) eqn:Ecpc; tw_ccases HS;
+    try solve [injection HS as <-; unfold tw_dispatch in *;
+               repeat match goal with H : context [if ?b then _ else _] |- _ => destruct b end;
+               tw_proj; repeat (destruct Hin as [Hin|Hin]; [discriminate|]); exact Hin].
+  match type of HS with match ?X with _ => _ end = _ => destruct X as [s3|f] eqn:EX end; injection HS as <-; [|exact Hin].
+  apply tw_cstep_lockM in EX; [|reflexivity]. destruct EX as (qa & ra & qb & rb & tr & _ & _ & -> & evs & -> & Hev).
+  tw_proj. apply in_app_or in Hin. destruct Hin as [Hin|Hin].
+  - exfalso. rewrite Forall_forall in Hev. apply Hev in Hin. exact Hin.
+  - destruct Hin as [Hin|Hin]; [discriminate|exact Hin].
+Qed.
+
+Lemma tw_msgs_with_id_app : forall i idx a e,
+  tw_msgs_with_id i idx (a ++ [e]) = tw_msgs_with_id i idx a ++ (if Nat.eqb (fst (fst e)) i && Nat.eqb (snd (fst e)) idx then [snd e] else []).
+Proof.
+  intros. unfold tw_msgs_with_id. rewrite filter_app, map_app. cbn [filter]. destruct (_ && _); reflexivity.
+Qed.
+
+Definition tw_ret_inv (s : tw_state) : Prop :=
+  (forall i p idx, nth_error (tw_prods s) i = Some p -> (tw_pt_idx p < idx)%nat -> tw_msgs_with_id i idx (tw_accepted s) = []) /\
+  (forall i p l, nth_error (tw_prods s) i = Some p -> tw_expect p = Some l -> tw_msgs_with_id i (tw_pt_idx p) (tw_accepted s) = l) /\
+  (forall i p idx k body rc, nth_error (tw_prods s) i = Some p -> In (TwEvRet (TwTProd i) idx (TwCSend k body) rc) (tw_trace s) ->
+     (idx < tw_pt_idx p)%nat /\
+     ((rc = Some 0 /\ tw_msgs_with_id i idx (tw_accepted s) = [tw_user_msg k body]) \/
+      (rc = Some tw_EBUSY /\ tw_msgs_with_id i idx (tw_accepted s) = []))) /\
+  (forall t idx c rc, In (TwEvRet t idx c rc) (tw_trace s) -> exists i p, t = TwTProd i /\ nth_error (tw_prods s) i = Some p).
+
+Lemma tw_ret_pstep : forall fx cap s i p s', tw_all_inv cap s -> tw_fifo cap s' -> tw_ret_inv s ->
+  nth_error (tw_prods s) i = Some p -> tw_pstep fx s i p = Some s' -> tw_ret_inv s'.
+Proof.
+  intros fx cap s i p s' HA HF' (R1 & R2 & R3 & R5) Hn HS.
+  destruct HA as (HL & HF & HH & HW & HK & HJ).
+  destruct (tw_pstep_sum _ _ _ _ _ (HH _ _ Hn) HS) as [SUM|(f & ->)].
+  2: { destruct HF' as (Hf & _). discriminate. }
+  destruct (tw_pstep_sum5 _ _ _ _ _ Hn (HH _ _ Hn) HS) as [SUM5|(f & ->)].
+  2: { destruct HF' as (Hf & _). discriminate. }
+  destruct SUM as (s1 & p1 & Es' & Sp & Sc & Sh & Sf & Sfl & Sq & Sa & SE1 & SE2 & (pre & Spre) & Sap & Scs).
+  destruct SUM5 as (p1' & Hself & Hidx & Hev & Hex).
+  assert (p1' = p1) as ->.
+  { assert (nth_error (tw_prods s') i = Some p1) by (rewrite Es'; tw_proj; rewrite Sp; eapply tw_nth_upd_eq; eauto). congruence. }
+  assert (Hoth : forall j q, j <> i -> nth_error (tw_prods s') j = Some q -> nth_error (tw_prods s) j = Some q).
+  { intros j q Hne Hq. rewrite Es' in Hq. tw_proj. rewrite Sp in Hq. rewrite tw_nth_upd_neq in Hq by congruence. exact Hq. }
+  (* accepted: same, or the message of the current call appended *)
+  assert (Eacc : (tw_accepted s' = tw_accepted s /\ forall c, tw_pt_pc p1 <> TwPSendUnlock c true \/ tw_pt_pc p <> TwPSendLock c) \/
+                 (exists c, tw_pt_pc p = TwPSendLock c /\ tw_pt_pc p1 = TwPSendUnlock c true /\
+                            tw_accepted s' = tw_accepted s ++ [(i, tw_pt_idx p, tw_sd_msg c)] /\ tw_pt_idx p1 = tw_pt_idx p)).
+  { destruct Hex as [(Hi & [Hx|[Hx|(c & Ep & Ep1 & Ea)]])|(Hi & Hx)].
+    4: { left. rewrite Es'. tw_proj. destruct Sa as [(_ & Sa)|(c & q1 & a & Epc & _ & _ & _ & _ & Epc1)].
+         - split; [exact Sa|]. intros c. destruct (tw_pt_pc p1) eqn:E1; try (left; discriminate). destruct ok; [|left; discriminate].
+           unfold tw_expect in Hx. rewrite E1 in Hx. discriminate.
+         - unfold tw_expect in Hx. rewrite Epc1 in Hx. discriminate. }
+    3: { right. exists c. auto. }
+    - left. rewrite Es'. tw_proj. destruct Sa as [(_ & Sa)|(c & q1 & a & Epc & _ & _ & _ & _ & Epc1)].
+      + split; [exact Sa|]. intros c. destruct (tw_pt_pc p1) eqn:E1; try (left; discriminate). destruct ok; [|left; discriminate].
+        unfold tw_expect in Hx. rewrite E1 in Hx. discriminate.
+      + unfold tw_expect in Hx. rewrite Epc1 in Hx. discriminate.
+    - left. rewrite Es'. tw_proj. destruct Sa as [(_ & Sa)|(c & q1 & a & Epc & _ & _ & _ & _ & Epc1)].
+      + split; [exact Sa|]. intros c. destruct (tw_pt_pc p) eqn:E0; try (right; discriminate).
+        destruct (tw_pt_pc p1) eqn:E1; try (left; discriminate). destruct ok; [|left; discriminate].
+        unfold tw_expect in Hx. rewrite E0, E1 in Hx. discriminate.
+      + unfold tw_expect in Hx. rewrite Epc, Epc1 in Hx. discriminate. }
+  assert (Hm_other : forall j idx, (j <> i \/ idx <> tw_pt_idx p) -> tw_msgs_with_id j idx (tw_accepted s') = tw_msgs_with_id j idx (tw_accepted s)).
+  { intros j idx Hd. destruct Eacc as [(Ea & _)|(c & _ & _ & Ea & _)]; rewrite Ea; [reflexivity|].
+    rewrite tw_msgs_with_id_app. cbn [fst snd].
+    destruct (Nat.eqb i j && Nat.eqb (tw_pt_idx p) idx) eqn:E; [|apply app_nil_r].
+    apply andb_prop in E. destruct E as (E1 & E2). apply Nat.eqb_eq in E1, E2. subst. destruct Hd; congruence. }
+  split; [|split; [|split]].
+  - (* R1 *)
+    intros j q idx Hq Hlt. destruct (Nat.eq_dec j i) as [->|Hne].
+    + rewrite Hself in Hq. injection Hq as <-. rewrite Hm_other by (right; lia). eapply R1; eauto. lia.
+    + rewrite Hm_other by (left; exact Hne). eapply R1; eauto.
+  - (* R2 *)
+    intros j q l Hq Hl. destruct (Nat.eq_dec j i) as [->|Hne].
+    + rewrite Hself in Hq. injection Hq as <-.
+      destruct Eacc as [(Ea & Hnot)|(c & Ep & Ep1 & Ea & Hi)].
+      * rewrite Ea. destruct Hex as [(Hi & [Hx|[Hx|(c & Ep & Ep1 & Ea')]])|(Hi & Hx)].
+        -- congruence.
+        -- rewrite Hi. apply (R2 _ _ _ Hn). congruence.
+        -- destruct (Hnot c); contradiction.
+        -- rewrite Hx in Hl. injection Hl as <-. eapply R1; eauto.
+      * rewrite Ea, Hi, tw_msgs_with_id_app. cbn [fst snd]. rewrite !Nat.eqb_refl. cbn [andb].
+        unfold tw_expect in Hl. rewrite Ep1 in Hl. injection Hl as <-.
+        rewrite (R2 _ _ [] Hn); [reflexivity|]. unfold tw_expect. rewrite Ep. reflexivity.
+    + rewrite Hm_other by (left; exact Hne). eapply R2; eauto.
+  - (* R3 *)
+    intros j q idx k body rc Hq Hin. destruct (Hev _ _ _ _ Hin) as [Hold|(Ht & Hj & Hsend)].
+    + destruct (Nat.eq_dec j i) as [->|Hne].
+      * rewrite Hself in Hq. injection Hq as <-. destruct (R3 _ _ _ _ _ _ Hn Hold) as (Hlt & Hres).
+        split; [lia|]. rewrite Hm_other by (right; lia). exact Hres.
+      * pose proof (Hoth _ _ Hne Hq) as Hq0. destruct (R3 _ _ _ _ _ _ Hq0 Hold) as (Hlt & Hres).
+        split; [exact Hlt|]. rewrite Hm_other by (left; exact Hne). exact Hres.
+    + injection Ht as ->. rewrite Hself in Hq. injection Hq as <-.
+      destruct (Hsend _ _ eq_refl) as (-> & Hri & (r & Ecalls)). split; [lia|].
+      assert (Ea : tw_accepted s' = tw_accepted s).
+      { destruct Eacc as [(Ea & _)|(c & Ep & _)]; [exact Ea|]. exfalso.
+        destruct Hri as [(_ & Hpc)|(_ & c' & _ & [Hpc|(w & Hpc)])]; congruence. }
+      rewrite Ea. destruct Hri as [(-> & Hpc)|(-> & c' & Hk & Hpc)].
+      * left. split; [reflexivity|]. apply (R2 _ _ _ Hn). unfold tw_expect. rewrite Hpc, Ecalls. reflexivity.
+      * right. split; [reflexivity|]. apply (R2 _ _ _ Hn). unfold tw_expect. destruct Hpc as [Hpc|(w & Hpc)]; rewrite Hpc; reflexivity.
+  - (* R5 *)
+    intros t idx c rc Hin. destruct (Hev _ _ _ _ Hin) as [Hold|(-> & _)].
+    + destruct (R5 _ _ _ _ Hold) as (j & q & -> & Hq). destruct (Nat.eq_dec j i) as [->|Hne].
+      * exists i, p1. auto.
+      * exists j, q. split; auto. rewrite Es'. tw_proj. rewrite Sp, tw_nth_upd_neq by congruence. exact Hq.
+    + exists i, p1. auto.
+Qed.
+
+Lemma tw_ret_reach : forall fx cap progs s, tw_wf cap progs -> tw_wf_close progs -> tw_reach fx cap progs s -> tw_ret_inv s.
+Proof.
+  intros fx cap progs s Hwf Hwc HR. induction HR as [|s t s' HR IH HS|s d HR IH].
+  - unfold tw_ret_inv, tw_init. tw_proj. repeat split; try reflexivity; try (intros; contradiction).
+    intros i p l Hn Hl. apply nth_error_In, in_map_iff in Hn. destruct Hn as (cs & <- & _). cbn in Hl. injection Hl as <-. reflexivity.
+  - pose proof (tw_all_reach _ _ _ _ Hwf Hwc HR) as HA.
+    pose proof (tw_fifo_reach _ _ _ _ Hwf (tw_reach_step _ _ _ _ _ _ HR HS)) as HF'.
+    unfold tw_step in HS. destruct (tw_fault s); [discriminate|]. destruct t as [i|].
+    + destruct (nth_error (tw_prods s) i) as [p|] eqn:En; [|discriminate]. exact (tw_ret_pstep fx cap s i p s' HA HF' IH En HS).
+    + destruct IH as (R1 & R2 & R3 & R5). pose proof (tw_cstep_prods _ _ HS) as Hp.
+      destruct (tw_cstep_facts _ _ HS) as (_ & Ha & _).
+      unfold tw_ret_inv. rewrite Hp, Ha.
+      split; [exact R1|]. split; [exact R2|]. split.
+      * intros i p idx k body rc Hn Hin. apply (tw_cstep_rets _ _ _ _ _ _ HS) in Hin. eauto.
+      * intros t idx c rc Hin. apply (tw_cstep_rets _ _ _ _ _ _ HS) in Hin. eauto.
+  - destruct IH as (R1 & R2 & R3 & R5). unfold tw_ret_inv. tw_proj.
+    split; [exact R1|]. split; [exact R2|]. split.
+    + intros i p idx k body rc Hn [Hin|Hin]; [discriminate|eauto].
+    + intros t idx c rc [Hin|Hin]; [discriminate|eauto].
+Qed.
+
+(* C06 rejected_leaves_no_trace: a send call (user_data / fsr / omit / annotation / utc) that returned an error has
+   no message in the accepted list (hence, by fifo_inv, none is ever handed to the writer); a call that returned 0
+   has exactly one, with exactly its bytes.  These are the only two return codes. *)
+Lemma tw_rejected_leaves_no_trace : forall fx cap progs s i idx k body rc,
+  tw_wf cap progs -> tw_wf_close progs -> tw_reach fx cap progs s ->
+  In (TwEvRet (TwTProd i) idx (TwCSend k body) rc) (tw_trace s) ->
+  (rc = Some 0 /\ tw_msgs_with_id i idx (tw_accepted s) = [tw_user_msg k body]) \/
+  (rc = Some tw_EBUSY /\ tw_msgs_with_id i idx (tw_accepted s) = []).
+Proof.
+  intros fx cap progs s i idx k body rc Hwf Hwc HR Hin.
+  destruct (tw_ret_reach _ _ _ _ Hwf Hwc HR) as (_ & _ & R3 & R5).
+  destruct (R5 _ _ _ _ Hin) as (j & p & Ej & Hn). injection Ej as <-.
+  destruct (R3 _ _ _ _ _ _ Hn Hin) as (_ & H). exact H.
+Qed.
+
+Lemma tw_ex_ret : exists s i idx k body,
+  tw_wf 128 tw_ex_prog /\ tw_wf_close tw_ex_prog /\ tw_reach false 128 tw_ex_prog s /\
+  In (TwEvRet (TwTProd i) idx (TwCSend k body) (Some 0)) (tw_trace s).
+Proof.
+  pose proof tw_ex_check_true as H. unfold tw_ex_check in H.
+  destruct (tw_run false (tw_init 128 tw_ex_prog) tw_ex_sched) as [s|] eqn:E; [|discriminate H].
+  destruct tw_ex_wf as (Hwf & Hwc). clear H.
+  assert (Hchk : match tw_run false (tw_init 128 tw_ex_prog) tw_ex_sched with
+                 | Some s0 => existsb (fun e => match e with TwEvRet (TwTProd 0) 1 (TwCSend TwMkUser _) (Some 0) => true | _ => false end) (tw_trace s0)
+                 | None => false end = true) by (vm_compute; reflexivity).
+  rewrite E in Hchk. apply existsb_exists in Hchk. destruct Hchk as (e & Hin & He).
+  destruct e as [| | | | | | | | | | | | | | | |t idx c rc| | |]; try discriminate He.
+  destruct t as [[|i]|]; try discriminate He. destruct idx as [|[|idx]]; try discriminate He.
+  destruct c as [|k body| | |]; try discriminate He. destruct k; try discriminate He.
+  destruct rc as [[|rc]|]; try discriminate He.
+  exists s, 0%nat, 1%nat, TwMkUser, body. split; [exact Hwf|]. split; [exact Hwc|].
+  split; [eapply tw_run_reach; [apply tw_reach_init|exact E]|exact Hin].
+Qed.
